@@ -1,12 +1,35 @@
 /-
   C09 / C11 / C12 (generated-code level) — `bid128_frexp`, `bid128_fdim` and `bid128_quantize` as translated into
   `DecGen/Code.lean`, against the specification-level model (`Dec.frexpD`, `Dec.cmpD`, `Dec.quantizeD` of DecModel/Misc.lean).
-  Built on `C13GenNoncomp` (bit-field tests, `decodeW`, the `BID_NR_DIGITS` digit count, exact multi-word products).
+  Built on `C13GenNoncomp` (bit-field tests, `decodeW`, the `BID_NR_DIGITS` digit count, exact multi-word products),
+  `C06GenFromInt` (`unpack_value_spec`, `sub_eq`), `C03GenCompare` (`quiet_greater_spec`), `C13GenPack` / `C13PackHelpers`
+  (table bridges, `uf_arith`: the arithmetic of "add the rounding constant, multiply by the reciprocal, cut at bit E").
+
+  Main theorems (all unconditional, every bit pattern, every rounding mode, every incoming status word):
+    frexp_spec (+ frexp_finite), fdim_spec, quantize_spec (+ quantize_decode).
+
+  How the long routine is cut into pieces.  The translated `bid128_quantize` is one 170-line `do` block.  Its pieces
+  (`quantFront2`, `quantMain`, `quantMain2`, `quantMainA`, `quantAfterEst`, `quantDispatch`, `quantDown`, `quantDownA … F`) are
+  COPIES of consecutive lines of the generated text, turned into definitions that take the live variables as parameters; that
+  the routine is the composition of the pieces is proved by `rfl` (`quantize_shape`, `quantMain_shape`, …) — so the pieces are
+  the code, and if the Rust source changes the `rfl`s fail.  Each piece is then specified on its own.
+
+  Kernel hygiene (learnt the hard way): never let `simp`/`dsimp` make a purely definitional step on a goal in which a
+  `match`/`bind` on `.ok v` is followed by another `match`/`bind` (the kernel compares the two continuations argument by
+  argument before unfolding and explodes): rewrite with `bind_ok` (a lemma with a proof term) instead; do not restate a
+  lemma with a fresh `match` (a new matcher is a different constant); rewrite hypotheses into constructor form before
+  giving them to `simp` together with matcher-unfolding lemmas.
 -/
 import DecProofs.Properties.C13GenNoncomp
 import DecProofs.Properties.C06GenFromInt
 import DecProofs.Properties.C03GenCompare
 import DecProofs.Properties.C13GenPack
+import DecGen.T_BID_POWER10_TABLE_128
+import DecGen.T_BID_ESTIMATE_DECIMAL_DIGITS
+import Mathlib.Tactic.Ring
+import Mathlib.Tactic.Linarith
+import Mathlib.Tactic.NormNum
+import DecProofs.Properties.C09Q
 
 set_option linter.unusedSimpArgs false
 set_option linter.unusedVariables false
@@ -1088,5 +1111,1429 @@ theorem quantize_front_main (x y : U128) (m : RoundingMode) (f : UInt32) {sx sy 
   simp only [a1, a2, a3, a4, a5, a6, b1, b2, b3, beq_self_eq_true, if_true, if_false,
     Bool.not_true, Bool.not_false, Bool.false_eq_true, or11, valid_zero _ hcy, valid_zero _ hcx, coeff_zero _ hcx, hc, decide_false]
   by_cases hz : cy = 0 <;> simp only [hz, decide_true, decide_false, if_true, if_false, Bool.false_eq_true]
+
+/-! ### B.2 the scale-down branch -/
+
+
+/-! ### shifting a 128-bit quantity held in two words: the arithmetic -/
+
+theorem pow_split (a b : Nat) (h : b ≤ a) : 2^a = 2^b * 2^(a-b) := by
+  rw [← Nat.pow_add]; congr 1; omega
+
+/-- left shift inside a word keeps the low `t` bits, left-aligned -/
+theorem shl_keep (w t : Nat) (ht : t ≤ 64) : w * 2^(64-t) % 2^64 = (w % 2^t) * 2^(64-t) := by
+  rw [pow_split 64 t ht, Nat.mul_mod_mul_right]
+
+theorem shl_back (w t : Nat) : ((w % 2^t) * 2^(64-t)) / 2^(64-t) = w % 2^t :=
+  Nat.mul_div_cancel _ (Nat.pow_pos (by decide))
+
+/-- quotient and remainder of a two-word quantity by `2^s`, `s ≤ 64` -/
+theorem two_word_lo (w3 w2 s : Nat) (h2 : w2 < 2^64) (hs : s ≤ 64) :
+    (w3 * 2^64 + w2) / 2^s = w3 * 2^(64-s) + w2 / 2^s ∧ (w3 * 2^64 + w2) % 2^s = w2 % 2^s := by
+  have e := pow_split 64 s hs
+  have hp : 0 < 2^s := Nat.pow_pos (by decide)
+  rw [e]
+  have e2 : w3 * (2^s * 2^(64-s)) + w2 = w2 + 2^s * (w3 * 2^(64-s)) := by ring
+  rw [e2]
+  exact ⟨by rw [Nat.add_mul_div_left _ _ hp]; omega, Nat.add_mul_mod_self_left _ _ _⟩
+
+/-- quotient and remainder of a two-word quantity by `2^(64+t)` -/
+theorem two_word_hi (w3 w2 t : Nat) (h2 : w2 < 2^64) :
+    (w3 * 2^64 + w2) / 2^(64+t) = w3 / 2^t ∧ (w3 * 2^64 + w2) % 2^(64+t) = (w3 % 2^t) * 2^64 + w2 := by
+  have hp : 0 < 2^t := Nat.pow_pos (by decide)
+  have hdm := Nat.div_add_mod w3 (2^t)
+  have hr : w3 % 2^t < 2^t := Nat.mod_lt _ hp
+  rw [Nat.pow_add]
+  generalize w3 / 2^t = q at *
+  generalize w3 % 2^t = r at *
+  generalize 2^t = T at *
+  subst hdm
+  have e : (T * q + r) * 2^64 + w2 = (r * 2^64 + w2) + 2^64 * T * q := by ring
+  have hlt : r * 2^64 + w2 < 2^64 * T := by nlinarith
+  rw [e]
+  exact ⟨by rw [Nat.add_mul_div_left _ _ (by positivity), Nat.div_eq_of_lt hlt, Nat.zero_add],
+    by rw [Nat.add_mul_mod_self_left, Nat.mod_eq_of_lt hlt]⟩
+
+/-- `__shr_128` word by word: `(w2 >> s) | (w3 << (64−s))`, `w3 >> s` is the quotient by `2^s` (`1 ≤ s ≤ 63`) -/
+theorem shr128_words (w3 w2 s : Nat) (h3 : w3 < 2^64) (h2 : w2 < 2^64) (hs1 : 1 ≤ s) (hs : s ≤ 63) :
+    (w3 / 2^s) * 2^64 + (w2 / 2^s ||| w3 * 2^(64-s) % 2^64) = (w3 * 2^64 + w2) / 2^s := by
+  rw [shl_keep w3 s (by omega), (two_word_lo w3 w2 s h2 (by omega)).1]
+  have hp : 0 < 2^s := Nat.pow_pos (by decide)
+  have e := pow_split 64 s (by omega)
+  have hlt : w2 / 2^s < 2^(64-s) := by
+    rw [Nat.div_lt_iff_lt_mul hp, Nat.mul_comm, ← e]; exact h2
+  rw [Nat.or_comm, Nat.mul_comm (w3 % 2^s), ← Nat.two_pow_add_eq_or_of_lt hlt]
+  have hdm := Nat.div_add_mod w3 (2^s)
+  generalize w3 / 2^s = q at *
+  generalize w3 % 2^s = r at *
+  rw [← hdm, e]
+  ring
+
+def quantDownF (sign_x : UInt64) (exponent_y : Int32) (rmode : RoundingMode) (pfpsf_ : UInt32) (CT : U256) (CR REM_H_ : U128) (amount extra_digits : Int32) : Except String (U128 × UInt32) := do
+  let mut pfpsf : UInt32 := pfpsf_
+  let mut REM_H : U128 := REM_H_
+  let mut Stemp : U128 := default
+  let mut res : U128 := default
+  let mut C2N : U128 := default
+  let mut carry : UInt64 := default
+  let mut CY64 : UInt64 := default
+  let mut status : UInt32 := c_StatusFlags_BID_INEXACT_EXCEPTION
+  let t__8 : RoundingMode := rmode
+  if ((t__8 == RoundingMode.NearestEven) || (t__8 == RoundingMode.NearestAway)) then
+    if (← (if ((REM_H.w1 == (0x8000000000000000 : UInt64)) && (REM_H.w0 == (0 : UInt64))) then (do pure ((← (if (decide (CT.w1 < (← tbl128 Dec.Gen.BID_RECIPROCALS10_128 (UInt64.ofInt (toI extra_digits))).w1)) then pure true else (do pure ((← (if (CT.w1 == (← tbl128 Dec.Gen.BID_RECIPROCALS10_128 (UInt64.ofInt (toI extra_digits))).w1) then (do pure (decide (CT.w0 < (← tbl128 Dec.Gen.BID_RECIPROCALS10_128 (UInt64.ofInt (toI extra_digits))).w0))) else pure false)))))))) else pure false)) then
+      status := c_StatusFlags_BID_EXACT_STATUS
+  else
+    if ((t__8 == RoundingMode.Downward) || (t__8 == RoundingMode.TowardZero)) then
+      if (← (if (((REM_H.w1 ||| REM_H.w0)) == (0 : UInt64)) then (do pure ((← (if (decide (CT.w1 < (← tbl128 Dec.Gen.BID_RECIPROCALS10_128 (UInt64.ofInt (toI extra_digits))).w1)) then pure true else (do pure ((← (if (CT.w1 == (← tbl128 Dec.Gen.BID_RECIPROCALS10_128 (UInt64.ofInt (toI extra_digits))).w1) then (do pure (decide (CT.w0 < (← tbl128 Dec.Gen.BID_RECIPROCALS10_128 (UInt64.ofInt (toI extra_digits))).w0))) else pure false)))))))) else pure false)) then
+        status := c_StatusFlags_BID_EXACT_STATUS
+    else
+      let t__9 := (← add_carry_out CT.w0 ((← tbl128 Dec.Gen.BID_RECIPROCALS10_128 (UInt64.ofInt (toI extra_digits))).w0))
+      Stemp := { Stemp with w0 := t__9.1 }
+      CY64 := t__9.2
+      let t__10 := (← add_carry_in_out CT.w1 ((← tbl128 Dec.Gen.BID_RECIPROCALS10_128 (UInt64.ofInt (toI extra_digits))).w1) CY64)
+      Stemp := { Stemp with w1 := t__10.1 }
+      carry := t__10.2
+      if (decide (amount < (0x40 : Int32))) then
+        C2N := { C2N with w1 := (0 : UInt64) }
+        C2N := { C2N with w0 := (((UInt64.ofInt (toI 1))) <<< (UInt64.ofInt (toI amount))) }
+        REM_H := { REM_H with w0 := (REM_H.w1 >>> (UInt64.ofInt (toI (((0x40 : Int32) - amount))))) }
+        REM_H := { REM_H with w1 := (0 : UInt64) }
+      else
+        C2N := { C2N with w1 := (((UInt64.ofInt (toI 1))) <<< (UInt64.ofInt (toI ((amount - (0x40 : Int32)))))) }
+        C2N := { C2N with w0 := (0 : UInt64) }
+        REM_H := { REM_H with w1 := (REM_H.w1 >>> (UInt64.ofInt (toI ((0x80 : Int32) - amount)))) }
+      REM_H := { REM_H with w0 := (REM_H.w0 + carry) }
+      if (decide (REM_H.w0 < carry)) then
+        REM_H := { REM_H with w1 := (REM_H.w1 + 1) }
+      if (← unsigned_compare_ge_128 REM_H C2N) then
+        status := c_StatusFlags_BID_EXACT_STATUS
+  let t__11 ← set_status_flags pfpsf status
+  pfpsf := t__11
+  res := (← bid_get_BID128_very_fast sign_x exponent_y CR)
+  return (res, pfpsf)
+
+def quantDownE (sign_x : UInt64) (exponent_y : Int32) (rmode : RoundingMode) (pfpsf : UInt32) (CT : U256) (CX2 CR : U128) (amount extra_digits : Int32) : Except String (U128 × UInt32) := do
+  let mut REM_H : U128 := default
+  if (decide (amount ≥ (0x40 : Int32))) then
+    REM_H := { REM_H with w1 := (CX2.w1 <<< (UInt64.ofInt (toI (((0x80 : Int32) - amount))))) }
+    REM_H := { REM_H with w0 := CX2.w0 }
+  else
+    REM_H := { REM_H with w1 := (CX2.w0 <<< (UInt64.ofInt (toI (((0x40 : Int32) - amount))))) }
+    REM_H := { REM_H with w0 := (0 : UInt64) }
+  quantDownF sign_x exponent_y rmode pfpsf CT CR REM_H amount extra_digits
+
+def quantDownD (sign_x : UInt64) (exponent_y : Int32) (rnd_mode rmode : RoundingMode) (pfpsf : UInt32) (CT : U256) (CX2 CR_ : U128) (amount extra_digits : Int32) : Except String (U128 × UInt32) := do
+  let mut CR : U128 := CR_
+  let mut remainder_h : UInt64 := default
+  if ((rnd_mode == RoundingMode.NearestEven) && (((CR.w0 &&& (1 : UInt64))) == (1 : UInt64))) then
+    remainder_h := (if (decide (amount ≥ (0x40 : Int32))) then (CX2.w0 ||| ((CX2.w1 <<< (UInt64.ofInt (toI (((0x80 : Int32) - amount))))))) else (CX2.w0 <<< (UInt64.ofInt (toI (((0x40 : Int32) - amount))))))
+    if (← (if (remainder_h == (0 : UInt64)) then (do pure ((← (if (decide (CT.w1 < (← tbl128 Dec.Gen.BID_RECIPROCALS10_128 (UInt64.ofInt (toI extra_digits))).w1)) then pure true else (do pure ((← (if (CT.w1 == (← tbl128 Dec.Gen.BID_RECIPROCALS10_128 (UInt64.ofInt (toI extra_digits))).w1) then (do pure (decide (CT.w0 < (← tbl128 Dec.Gen.BID_RECIPROCALS10_128 (UInt64.ofInt (toI extra_digits))).w0))) else pure false)))))))) else pure false)) then
+      CR := { CR with w0 := (CR.w0 - 1) }
+  quantDownE sign_x exponent_y rmode pfpsf CT CX2 CR amount extra_digits
+
+def quantDownC (sign_x : UInt64) (exponent_y : Int32) (rnd_mode rmode : RoundingMode) (pfpsf : UInt32) (CT : U256) (CX2 : U128) (amount extra_digits : Int32) : Except String (U128 × UInt32) := do
+  let mut CR : U128 := default
+  if (decide (amount ≥ (0x40 : Int32))) then
+    CR := { CR with w1 := (0 : UInt64) }
+    CR := { CR with w0 := (CX2.w1 >>> (UInt64.ofInt (toI ((amount - (0x40 : Int32)))))) }
+  else
+    CR := (← shr_128 CX2 amount)
+  quantDownD sign_x exponent_y rnd_mode rmode pfpsf CT CX2 CR amount extra_digits
+
+def quantDownB (sign_x : UInt64) (exponent_y : Int32) (CX_ : U128) (expon_diff : Int32) (rnd_mode rmode : RoundingMode) (pfpsf : UInt32) : Except String (U128 × UInt32) := do
+  let mut CX : U128 := CX_
+  let mut CT : U256 := default
+  let mut CX2 : U128 := default
+  let mut extra_digits : Int32 := default
+  let mut amount : Int32 := default
+  extra_digits := (-expon_diff)
+  CX := (← add_128_128 CX (← tbl128_2 Dec.Gen.BID_ROUND_CONST_TABLE_128 36 (UInt64.ofInt (toI rmode)) (UInt64.ofInt (toI extra_digits))))
+  CT := (← mul_128x128_to_256 CX (← tbl128 Dec.Gen.BID_RECIPROCALS10_128 (UInt64.ofInt (toI extra_digits))))
+  amount := (← tblI32 Dec.Gen.BID_RECIP_SCALE (UInt64.ofInt (toI extra_digits)))
+  CX2 := { CX2 with w0 := CT.w2 }
+  CX2 := { CX2 with w1 := CT.w3 }
+  quantDownC sign_x exponent_y rnd_mode rmode pfpsf CT CX2 amount extra_digits
+
+def quantDownA (sign_x : UInt64) (exponent_y : Int32) (CX : U128) (expon_diff : Int32) (rnd_mode : RoundingMode) (pfpsf : UInt32) : Except String (U128 × UInt32) := do
+  let mut rmode : RoundingMode := default
+  rmode := rnd_mode
+  if ((sign_x != (0 : UInt64)) && ((decide ((((UInt32.ofInt (toI rmode)) - (1 : UInt32))) < (2 : UInt32))))) then
+    rmode := (← RoundingMode.fromU32 ((3 : UInt32) - ((UInt32.ofInt (toI rmode)))))
+  quantDownB sign_x exponent_y CX expon_diff rnd_mode rmode pfpsf
+
+theorem quantDown_shape (sx : UInt64) (ey : Int32) (CX : U128) (diff : Int32) (m : RoundingMode) (f : UInt32) :
+    quantDown sx ey CX diff m f = quantDownA sx ey CX diff m f := by
+  rfl
+
+
+/-- the open-coded comparison `(CT.w1, CT.w0) < BID_RECIPROCALS10_128[extra]` with its three table reads -/
+theorem ltK_chain (idx : UInt64) (K : U128) (hK : tbl128 Dec.Gen.BID_RECIPROCALS10_128 idx = .ok K) (a1 a0 : UInt64) :
+    ((tbl128 Dec.Gen.BID_RECIPROCALS10_128 idx).bind fun v =>
+      if decide (a1 < v.w1) = true then Except.ok true
+      else (tbl128 Dec.Gen.BID_RECIPROCALS10_128 idx).bind fun v =>
+        if (a1 == v.w1) = true then
+          (tbl128 Dec.Gen.BID_RECIPROCALS10_128 idx).bind fun v => Except.ok (decide (a0 < v.w0))
+        else Except.ok false)
+      = Except.ok (decide (a1.toNat * 2^64 + a0.toNat < bitsOf K)) := by
+  have h0 := a0.toNat_lt; have h1 := K.w0.toNat_lt
+  rw [hK, bind_ok]
+  unfold bitsOf
+  by_cases hA : a1 < K.w1
+  · rw [if_pos (by simpa using hA)]
+    rw [UInt64.lt_iff_toNat_lt] at hA
+    exact congrArg Except.ok (by rw [eq_comm, decide_eq_true_eq]; omega)
+  · rw [if_neg (by simpa using hA), bind_ok]
+    rw [UInt64.lt_iff_toNat_lt] at hA
+    by_cases hB : a1 = K.w1
+    · rw [if_pos (by simpa using hB), bind_ok]
+      refine congrArg Except.ok ?_
+      rw [decide_eq_decide, UInt64.lt_iff_toNat_lt, hB]; omega
+    · rw [if_neg (by simpa using hB)]
+      rw [← UInt64.toNat_inj] at hB
+      exact congrArg Except.ok (by rw [eq_comm, decide_eq_false_iff_not]; omega)
+
+/-- the end of the scale-down branch: pack `CR` under the sign and exponent, raise inexact unless `exact` -/
+def downFin (sx : UInt64) (ey : Int32) (CR : U128) (f : UInt32) (exact : Bool) : Except String (U128 × UInt32) :=
+  (bid_get_BID128_very_fast sx ey CR).bind fun r => Except.ok (r, if exact then f else f ||| 32)
+
+theorem downFin_ite (sx : UInt64) (ey : Int32) (CR : U128) (f : UInt32) (b : Bool) :
+    (if b = true then
+        (Except.ok (f ||| 0)).bind fun t => (bid_get_BID128_very_fast sx ey CR).bind fun r => Except.ok (r, t)
+      else (Except.ok (f ||| 32)).bind fun t => (bid_get_BID128_very_fast sx ey CR).bind fun r => Except.ok (r, t))
+      = downFin sx ey CR f b := by
+  unfold downFin
+  cases b
+  · rw [if_neg (by decide), bind_ok]; rfl
+  · rw [if_pos rfl, bind_ok, UInt32.or_zero]; rfl
+
+theorem guard_chain (c : Bool) (X : Except String Bool) (b : Bool) (hX : X = .ok b) (G : Bool → Except String (U128 × UInt32)) :
+    ((if c = true then X else Except.ok false).bind G) = G (c && b) := by
+  cases c
+  · rw [if_neg (by decide), bind_ok]; rfl
+  · rw [if_pos rfl, hX, bind_ok]; rfl
+
+open Dec.C13GenPack (md)
+
+theorem shr_i32 (w : UInt64) (j : Int32) (n : Nat) (hj : j.toInt = n) (hn : n ≤ 63) :
+    (w >>> UInt64.ofInt (toI j)).toNat = w.toNat / 2^n := by
+  rw [Dec.C13GenPack.shr_var w j (by omega) (by omega), hj]
+  show w.toNat >>> n = _
+  rw [Nat.shiftRight_eq_div_pow]
+
+theorem shl_i32 (w : UInt64) (j : Int32) (n : Nat) (hj : j.toInt = n) (hn : n ≤ 63) :
+    (w <<< UInt64.ofInt (toI j)).toNat = w.toNat * 2^n % 2^64 := by
+  rw [Dec.C13GenPack.shl_var w j (by omega) (by omega), hj]
+  show (w.toNat <<< n) % 2^64 = _
+  rw [Nat.shiftLeft_eq]
+
+theorem i32_ge64 (a : Int32) : decide (a ≥ 64) = decide (64 ≤ a.toInt) := by
+  rw [decide_eq_decide, ge_iff_le, Int32.le_iff_toInt_le]; rfl
+theorem i32_lt64 (a : Int32) : decide (a < 64) = decide (a.toInt < 64) := by
+  rw [decide_eq_decide, Int32.lt_iff_toInt_lt]; rfl
+
+/-- when the rounding of the scale-down branch was exact, by (sign-adjusted) mode, in terms of the fraction's high part
+`fracH` (`s` bits), its low 128 bits `Ql` and the reciprocal `Kv` -/
+def exactCond (r : Mode) (fracH Ql Kv s : Nat) : Bool :=
+  match r with
+  | .rne | .rna => decide (fracH = 2^(s-1) ∧ Ql < Kv)
+  | .rdn | .rtz => decide (fracH = 0 ∧ Ql < Kv)
+  | .rup => decide (2^s ≤ fracH + (if 2^128 ≤ Ql + Kv then 1 else 0))
+
+theorem ge128_ok (A B : U128) : unsigned_compare_ge_128 A B = .ok (decide (bitsOf B ≤ bitsOf A)) := by
+  have := A.w0.toNat_lt; have := B.w0.toNat_lt
+  unfold unsigned_compare_ge_128 bitsOf
+  simp only [bind, Except.bind, pure, Except.pure]
+  refine congrArg Except.ok ?_
+  rw [Bool.eq_iff_iff]
+  simp only [Bool.or_eq_true, Bool.and_eq_true, decide_eq_true_eq, beq_iff_eq, gt_iff_lt, ge_iff_le, UInt64.lt_iff_toNat_lt,
+    UInt64.le_iff_toNat_le, ← UInt64.toNat_inj]
+  omega
+
+theorem one_lit : UInt64.ofInt (toI (1 : Nat)) = 1 := rfl
+
+theorem mode_nearest (r : RoundingMode) :
+    (r == RoundingMode.NearestEven || r == RoundingMode.NearestAway) = decide (md r = .rne ∨ md r = .rna) := by
+  cases r <;> rfl
+theorem mode_trunc (r : RoundingMode) :
+    (r == RoundingMode.Downward || r == RoundingMode.TowardZero) = decide (md r = .rdn ∨ md r = .rtz) := by
+  cases r <;> rfl
+
+theorem carry_val (s0 c0 s1 c1 w0 w1 k0 k1 : Nat) (va : s0 + 2^64 * c0 = w0 + k0) (vb : s1 + 2^64 * c1 = w1 + k1 + c0)
+    (ba : c0 ≤ 1) (bb : c1 ≤ 1) (h1 : s0 < 2^64) (h2 : s1 < 2^64) :
+    c1 = if 2^128 ≤ w1 * 2^64 + w0 + (k1 * 2^64 + k0) then 1 else 0 := by
+  by_cases hc : 2^128 ≤ w1 * 2^64 + w0 + (k1 * 2^64 + k0)
+  · rw [if_pos hc]; omega
+  · rw [if_neg hc]; omega
+
+theorem quantDownE_hi (sx : UInt64) (ey : Int32) (rmode : RoundingMode) (f : UInt32) (CT : U256) (CR : U128)
+    (amount extra : Int32) (K : U128) (hK : tbl128 Dec.Gen.BID_RECIPROCALS10_128 (UInt64.ofInt (toI extra)) = .ok K)
+    (s : Nat) (hs : amount.toInt = s) (hs1 : 65 ≤ s) (hs2 : s ≤ 127) :
+    quantDownE sx ey rmode f CT ⟨CT.w2, CT.w3⟩ CR amount extra =
+      downFin sx ey CR f (exactCond (md rmode) ((CT.w3.toNat * 2^64 + CT.w2.toNat) % 2^s)
+        (CT.w1.toNat * 2^64 + CT.w0.toNat) (bitsOf K) s) := by
+  obtain ⟨t, rfl⟩ : ∃ t, s = 64 + t := ⟨s - 64, by omega⟩
+  have h2 := CT.w2.toNat_lt; have h3 := CT.w3.toNat_lt
+  have e128 : ((128 : Int32) - amount).toInt = ((64 - t : Nat) : Int) := by
+    rw [Dec.C13GenPack.rsub80 amount (by omega), hs]; omega
+  have e64 : (amount - (64 : Int32)).toInt = (t : Int) := by
+    rw [Dec.C13GenPack.sub40 amount (by omega), hs]; omega
+  obtain ⟨fq, fr⟩ := two_word_hi CT.w3.toNat CT.w2.toNat t h2
+  have hA : CT.w3.toNat % 2^t < 2^t := Nat.mod_lt _ (Nat.pow_pos (by decide))
+  have hpt : 2^t * 2^(64-t) = 2^64 := by rw [← Nat.pow_add]; congr 1; omega
+  have hX : (CT.w3 <<< UInt64.ofInt (toI ((128 : Int32) - amount))).toNat = (CT.w3.toNat % 2^t) * 2^(64-t) := by
+    rw [shl_i32 _ _ (64 - t) e128 (by omega), shl_keep _ t (by omega)]
+  have hXb : ((CT.w3 <<< UInt64.ofInt (toI ((128 : Int32) - amount))) >>> UInt64.ofInt (toI ((128 : Int32) - amount))).toNat
+      = CT.w3.toNat % 2^t := by
+    rw [shr_i32 _ _ (64 - t) e128 (by omega), hX, shl_back]
+  have hC2 : (UInt64.ofInt (toI (1 : Nat)) <<< UInt64.ofInt (toI (amount - (64 : Int32)))).toNat = 2^t := by
+    rw [one_lit, shl_i32 _ _ t e64 (by omega), UInt64.toNat_one, Nat.one_mul, Nat.mod_eq_of_lt]
+    exact Nat.pow_lt_pow_right (by decide) (by omega)
+  rw [fr]
+  unfold quantDownE quantDownF
+  delta c_StatusFlags_BID_INEXACT_EXCEPTION c_DEC_FE_INEXACT c_StatusFlags_BID_EXACT_STATUS
+  simp only [bind, pure, Except.pure, set_status_flags]
+  rw [if_pos (by rw [i32_ge64, hs]; simp)]
+  simp only [mode_nearest, mode_trunc, downFin_ite]
+  have hlt := ltK_chain _ K hK CT.w1 CT.w0
+  cases hm : md rmode with
+  | rne | rna =>
+    all_goals (
+      simp only [true_or, or_true, decide_true, if_true]
+      rw [guard_chain _ _ _ hlt]
+      refine congrArg (downFin sx ey CR f) ?_
+      unfold exactCond
+      simp only []
+      rw [Bool.eq_iff_iff]
+      simp only [Bool.and_eq_true, beq_iff_eq, decide_eq_true_eq, ← UInt64.toNat_inj, hX, UInt64.toNat_zero,
+        show (9223372036854775808 : UInt64).toNat = 2^63 from by decide]
+      have e63 : 2^63 = 2^(t-1) * 2^(64-t) := by rw [← Nat.pow_add]; congr 1; omega
+      have e2 : 2^(64 + t - 1) = 2^(t-1) * 2^64 := by rw [← Nat.pow_add]; congr 1; omega
+      rw [e63, e2]
+      have hp : 0 < 2^(64-t) := Nat.pow_pos (by decide)
+      constructor
+      · rintro ⟨⟨a, b⟩, c⟩
+        have := Nat.eq_of_mul_eq_mul_right hp a
+        rw [this, b]; exact ⟨by omega, c⟩
+      · rintro ⟨a, c⟩
+        generalize CT.w3.toNat % 2^t = A at *
+        generalize 2^(t-1) = P at *
+        have hw2 : CT.w2.toNat = 0 := by omega
+        have : A = P := by omega
+        subst this
+        exact ⟨⟨rfl, hw2⟩, c⟩)
+  | rdn | rtz =>
+    all_goals (
+      simp only [reduceCtorEq, or_self, decide_false, Bool.false_eq_true, if_false, true_or, or_true, decide_true, if_true]
+      rw [guard_chain _ _ _ hlt]
+      refine congrArg (downFin sx ey CR f) ?_
+      unfold exactCond
+      simp only []
+      rw [Bool.eq_iff_iff]
+      simp only [Bool.and_eq_true, beq_iff_eq, decide_eq_true_eq, ← UInt64.toNat_inj, UInt64.toNat_or, hX, UInt64.toNat_zero,
+        Nat.or_eq_zero_iff]
+      have hp : 0 < 2^(64-t) := Nat.pow_pos (by decide)
+      constructor
+      · rintro ⟨⟨a, b⟩, c⟩
+        have : CT.w3.toNat % 2^t = 0 := by
+          rcases Nat.eq_zero_or_pos (CT.w3.toNat % 2^t) with h | h
+          · exact h
+          · exact absurd a (Nat.ne_of_gt (Nat.mul_pos h hp))
+        rw [this, b]; exact ⟨by rw [Nat.zero_mul], c⟩
+      · rintro ⟨a, c⟩
+        have h1 : CT.w3.toNat % 2^t = 0 := by
+          generalize CT.w3.toNat % 2^t = A at *
+          omega
+        have h2' : CT.w2.toNat = 0 := by
+          generalize CT.w3.toNat % 2^t = A at *
+          omega
+        rw [h1]; exact ⟨⟨by omega, h2'⟩, c⟩)
+  | rup =>
+    simp only [reduceCtorEq, or_self, decide_false, Bool.false_eq_true, if_false]
+    obtain ⟨s0, c0, ea, va, ba⟩ := add_carry_out_ok CT.w0 K.w0
+    obtain ⟨s1, c1, eb, vb, bb⟩ := add_carry_in_out_ok CT.w1 K.w1 c0 ba
+    rw [hK, bind_ok, ea, bind_ok, bind_ok, eb, bind_ok, if_neg (by rw [i32_lt64, hs]; simp)]
+    have hc1 : c1.toNat = if 2^128 ≤ CT.w1.toNat * 2^64 + CT.w0.toNat + bitsOf K then 1 else 0 :=
+      carry_val _ _ _ _ _ _ _ _ va vb ba bb s0.toNat_lt s1.toNat_lt
+    have hsum : (CT.w2 + c1).toNat = (CT.w2.toNat + c1.toNat) % 2^64 := UInt64.toNat_add _ _
+    have hpt' : 2^(64 + t) = 2^t * 2^64 := by rw [Nat.pow_add, Nat.mul_comm]
+    have hC2b : bitsOf ({ w0 := 0, w1 := UInt64.ofInt (toI (1 : Nat)) <<< UInt64.ofInt (toI (amount - (64 : Int32))) } : U128) = 2^(64+t) := by
+      unfold bitsOf; rw [hC2, hpt']; exact Nat.add_zero _
+    have hpt63 : 2^t ≤ 2^63 := Nat.pow_le_pow_right (by decide) (by omega)
+    by_cases hw : CT.w2 + c1 < c1
+    · rw [if_pos (by simpa using hw), ge128_ok, bind_ok]
+      refine congrArg (downFin sx ey CR f) ?_
+      unfold exactCond
+      simp only []
+      rw [hC2b, decide_eq_decide, ← hc1]
+      have hb : bitsOf ({ w0 := CT.w2 + c1, w1 := ((CT.w3 <<< UInt64.ofInt (toI ((128 : Int32) - amount))) >>> UInt64.ofInt (toI ((128 : Int32) - amount))) + 1 } : U128)
+          = CT.w3.toNat % 2^t * 2^64 + CT.w2.toNat + c1.toNat := by
+        unfold bitsOf
+        rw [UInt64.toNat_add, hXb, UInt64.toNat_one, hsum, Nat.mod_eq_of_lt (by omega)]
+        rw [UInt64.lt_iff_toNat_lt, hsum] at hw
+        generalize CT.w3.toNat % 2^t = A at *
+        omega
+      rw [hb]
+    · rw [if_neg (by simpa using hw), ge128_ok, bind_ok]
+      refine congrArg (downFin sx ey CR f) ?_
+      unfold exactCond
+      simp only []
+      rw [hC2b, decide_eq_decide, ← hc1]
+      have hb : bitsOf ({ w0 := CT.w2 + c1, w1 := ((CT.w3 <<< UInt64.ofInt (toI ((128 : Int32) - amount))) >>> UInt64.ofInt (toI ((128 : Int32) - amount))) } : U128)
+          = CT.w3.toNat % 2^t * 2^64 + CT.w2.toNat + c1.toNat := by
+        unfold bitsOf
+        rw [hXb, hsum]
+        rw [UInt64.lt_iff_toNat_lt, hsum] at hw
+        generalize CT.w3.toNat % 2^t = A at *
+        omega
+      rw [hb]
+
+theorem quantDownE_lo (sx : UInt64) (ey : Int32) (rmode : RoundingMode) (f : UInt32) (CT : U256) (CR : U128)
+    (amount extra : Int32) (K : U128) (hK : tbl128 Dec.Gen.BID_RECIPROCALS10_128 (UInt64.ofInt (toI extra)) = .ok K)
+    (s : Nat) (hs : amount.toInt = s) (hs1 : 1 ≤ s) (hs2 : s ≤ 63) :
+    quantDownE sx ey rmode f CT ⟨CT.w2, CT.w3⟩ CR amount extra =
+      downFin sx ey CR f (exactCond (md rmode) ((CT.w3.toNat * 2^64 + CT.w2.toNat) % 2^s)
+        (CT.w1.toNat * 2^64 + CT.w0.toNat) (bitsOf K) s) := by
+  have h2 := CT.w2.toNat_lt; have h3 := CT.w3.toNat_lt
+  have e64 : ((64 : Int32) - amount).toInt = ((64 - s : Nat) : Int) := by
+    rw [Dec.C13GenPack.rsub40 amount (by omega), hs]; omega
+  obtain ⟨fq, fr⟩ := two_word_lo CT.w3.toNat CT.w2.toNat s h2 (by omega)
+  have hA : CT.w2.toNat % 2^s < 2^s := Nat.mod_lt _ (Nat.pow_pos (by decide))
+  have hX : (CT.w2 <<< UInt64.ofInt (toI ((64 : Int32) - amount))).toNat = (CT.w2.toNat % 2^s) * 2^(64-s) := by
+    rw [shl_i32 _ _ (64 - s) e64 (by omega), shl_keep _ s (by omega)]
+  have hXb : ((CT.w2 <<< UInt64.ofInt (toI ((64 : Int32) - amount))) >>> UInt64.ofInt (toI ((64 : Int32) - amount))).toNat
+      = CT.w2.toNat % 2^s := by
+    rw [shr_i32 _ _ (64 - s) e64 (by omega), hX, shl_back]
+  have hps : 2^s ≤ 2^63 := Nat.pow_le_pow_right (by decide) hs2
+  have hC2 : (UInt64.ofInt (toI (1 : Nat)) <<< UInt64.ofInt (toI amount)).toNat = 2^s := by
+    rw [one_lit, shl_i32 _ _ s hs (by omega), UInt64.toNat_one, Nat.one_mul, Nat.mod_eq_of_lt (by omega)]
+  rw [fr]
+  unfold quantDownE quantDownF
+  delta c_StatusFlags_BID_INEXACT_EXCEPTION c_DEC_FE_INEXACT c_StatusFlags_BID_EXACT_STATUS
+  simp only [bind, pure, Except.pure, set_status_flags]
+  rw [if_neg (by rw [i32_ge64, hs]; simp; omega)]
+  simp only [mode_nearest, mode_trunc, downFin_ite]
+  have hlt := ltK_chain _ K hK CT.w1 CT.w0
+  have hp : 0 < 2^(64-s) := Nat.pow_pos (by decide)
+  cases hm : md rmode with
+  | rne | rna =>
+    all_goals (
+      simp only [true_or, or_true, decide_true, if_true]
+      rw [guard_chain _ _ _ hlt]
+      refine congrArg (downFin sx ey CR f) ?_
+      unfold exactCond
+      simp only []
+      rw [Bool.eq_iff_iff]
+      simp only [Bool.and_eq_true, beq_iff_eq, decide_eq_true_eq, ← UInt64.toNat_inj, hX, UInt64.toNat_zero,
+        show (9223372036854775808 : UInt64).toNat = 2^63 from by decide, and_true]
+      have e63 : 2^63 = 2^(s-1) * 2^(64-s) := by rw [← Nat.pow_add]; congr 1; omega
+      rw [e63]
+      constructor
+      · rintro ⟨a, c⟩
+        exact ⟨Nat.eq_of_mul_eq_mul_right hp a, c⟩
+      · rintro ⟨a, c⟩
+        exact ⟨by rw [a], c⟩)
+  | rdn | rtz =>
+    all_goals (
+      simp only [reduceCtorEq, or_self, decide_false, Bool.false_eq_true, if_false, true_or, or_true, decide_true, if_true]
+      rw [guard_chain _ _ _ hlt]
+      refine congrArg (downFin sx ey CR f) ?_
+      unfold exactCond
+      simp only []
+      rw [Bool.eq_iff_iff]
+      simp only [Bool.and_eq_true, beq_iff_eq, decide_eq_true_eq, ← UInt64.toNat_inj, UInt64.toNat_or, hX, UInt64.toNat_zero,
+        Nat.or_zero]
+      constructor
+      · rintro ⟨a, c⟩
+        refine ⟨?_, c⟩
+        rcases Nat.eq_zero_or_pos (CT.w2.toNat % 2^s) with h | h
+        · exact h
+        · exact absurd a (Nat.ne_of_gt (Nat.mul_pos h hp))
+      · rintro ⟨a, c⟩
+        exact ⟨by rw [a, Nat.zero_mul], c⟩)
+  | rup =>
+    simp only [reduceCtorEq, or_self, decide_false, Bool.false_eq_true, if_false]
+    obtain ⟨s0, c0, ea, va, ba⟩ := add_carry_out_ok CT.w0 K.w0
+    obtain ⟨s1, c1, eb, vb, bb⟩ := add_carry_in_out_ok CT.w1 K.w1 c0 ba
+    rw [hK, bind_ok, ea, bind_ok, bind_ok, eb, bind_ok, if_pos (by rw [i32_lt64, hs]; simp; omega)]
+    have hc1 : c1.toNat = if 2^128 ≤ CT.w1.toNat * 2^64 + CT.w0.toNat + bitsOf K then 1 else 0 :=
+      carry_val _ _ _ _ _ _ _ _ va vb ba bb s0.toNat_lt s1.toNat_lt
+    have hC2b : bitsOf ({ w0 := UInt64.ofInt (toI (1 : Nat)) <<< UInt64.ofInt (toI amount), w1 := 0 } : U128) = 2^s := by
+      unfold bitsOf; rw [hC2, UInt64.toNat_zero, Nat.zero_mul, Nat.zero_add]
+    have hsum : (((CT.w2 <<< UInt64.ofInt (toI ((64 : Int32) - amount))) >>> UInt64.ofInt (toI ((64 : Int32) - amount))) + c1).toNat
+        = CT.w2.toNat % 2^s + c1.toNat := by
+      rw [UInt64.toNat_add, hXb, Nat.mod_eq_of_lt (by omega)]
+    have hnw : ¬ (((CT.w2 <<< UInt64.ofInt (toI ((64 : Int32) - amount))) >>> UInt64.ofInt (toI ((64 : Int32) - amount))) + c1 < c1) := by
+      rw [UInt64.lt_iff_toNat_lt, hsum]; omega
+    rw [if_neg (by simpa using hnw), ge128_ok, bind_ok]
+    refine congrArg (downFin sx ey CR f) ?_
+    unfold exactCond
+    simp only []
+    rw [hC2b, decide_eq_decide, ← hc1]
+    have hb : bitsOf ({ w0 := ((CT.w2 <<< UInt64.ofInt (toI ((64 : Int32) - amount))) >>> UInt64.ofInt (toI ((64 : Int32) - amount))) + c1, w1 := 0 } : U128)
+        = CT.w2.toNat % 2^s + c1.toNat := by
+      unfold bitsOf; rw [hsum, UInt64.toNat_zero, Nat.zero_mul, Nat.zero_add]
+    rw [hb]
+
+theorem quantDownE_spec (sx : UInt64) (ey : Int32) (rmode : RoundingMode) (f : UInt32) (CT : U256) (CR : U128)
+    (amount extra : Int32) (K : U128) (hK : tbl128 Dec.Gen.BID_RECIPROCALS10_128 (UInt64.ofInt (toI extra)) = .ok K)
+    (s : Nat) (hs : amount.toInt = s) (hs1 : 1 ≤ s) (hs2 : s ≤ 127) (hs64 : s ≠ 64) :
+    quantDownE sx ey rmode f CT ⟨CT.w2, CT.w3⟩ CR amount extra =
+      downFin sx ey CR f (exactCond (md rmode) ((CT.w3.toNat * 2^64 + CT.w2.toNat) % 2^s)
+        (CT.w1.toNat * 2^64 + CT.w0.toNat) (bitsOf K) s) := by
+  by_cases h : s ≤ 63
+  · exact quantDownE_lo sx ey rmode f CT CR amount extra K hK s hs hs1 h
+  · exact quantDownE_hi sx ey rmode f CT CR amount extra K hK s hs (by omega) hs2
+
+theorem mode_ne (r : RoundingMode) : (r == RoundingMode.NearestEven) = decide (md r = .rne) := by cases r <;> rfl
+
+/-- the midpoint repair of round-half-even: the quotient, decremented when it is odd and the fraction is below one
+reciprocal unit -/
+theorem quantDownD_spec (sx : UInt64) (ey : Int32) (rm rmode : RoundingMode) (f : UInt32) (CT : U256) (CR : U128)
+    (amount extra : Int32) (K : U128) (hK : tbl128 Dec.Gen.BID_RECIPROCALS10_128 (UInt64.ofInt (toI extra)) = .ok K)
+    (s : Nat) (hs : amount.toInt = s) (hs1 : 1 ≤ s) (hs2 : s ≤ 127) (hs64 : s ≠ 64) :
+    ∃ CR', bitsOf CR' = (if md rm = .rne ∧ bitsOf CR % 2 = 1 ∧ (CT.w3.toNat * 2^64 + CT.w2.toNat) % 2^s = 0 ∧
+          CT.w1.toNat * 2^64 + CT.w0.toNat < bitsOf K then bitsOf CR - 1 else bitsOf CR) ∧
+      quantDownD sx ey rm rmode f CT ⟨CT.w2, CT.w3⟩ CR amount extra =
+        downFin sx ey CR' f (exactCond (md rmode) ((CT.w3.toNat * 2^64 + CT.w2.toNat) % 2^s)
+          (CT.w1.toNat * 2^64 + CT.w0.toNat) (bitsOf K) s) := by
+  have h2 := CT.w2.toNat_lt; have h3 := CT.w3.toNat_lt
+  have hodd : (CR.w0 &&& 1 == 1) = decide (bitsOf CR % 2 = 1) := by
+    rw [Bool.eq_iff_iff, beq_iff_eq, decide_eq_true_eq, ← UInt64.toNat_inj, UInt64.toNat_and, UInt64.toNat_one,
+      Nat.and_one_is_mod]
+    unfold bitsOf; omega
+  -- the test `remainder_h == 0`
+  have hrem : ((if decide (amount ≥ 64) = true then CT.w2 ||| CT.w3 <<< UInt64.ofInt (toI ((128 : Int32) - amount))
+        else CT.w2 <<< UInt64.ofInt (toI ((64 : Int32) - amount))) == 0)
+      = decide ((CT.w3.toNat * 2^64 + CT.w2.toNat) % 2^s = 0) := by
+    by_cases h : s ≤ 63
+    · have e64 : ((64 : Int32) - amount).toInt = ((64 - s : Nat) : Int) := by
+        rw [Dec.C13GenPack.rsub40 amount (by omega), hs]; omega
+      rw [if_neg (by rw [i32_ge64, hs]; simp; omega), (two_word_lo _ _ s h2 (by omega)).2, Bool.eq_iff_iff, beq_iff_eq,
+        decide_eq_true_eq, ← UInt64.toNat_inj, shl_i32 _ _ (64 - s) e64 (by omega), shl_keep _ s (by omega), UInt64.toNat_zero]
+      have hp : 0 < 2^(64-s) := Nat.pow_pos (by decide)
+      constructor
+      · intro a
+        rcases Nat.eq_zero_or_pos (CT.w2.toNat % 2^s) with h | h
+        · exact h
+        · exact absurd a (Nat.ne_of_gt (Nat.mul_pos h hp))
+      · intro a; rw [a, Nat.zero_mul]
+    · obtain ⟨t, rfl⟩ : ∃ t, s = 64 + t := ⟨s - 64, by omega⟩
+      have e128 : ((128 : Int32) - amount).toInt = ((64 - t : Nat) : Int) := by
+        rw [Dec.C13GenPack.rsub80 amount (by omega), hs]; omega
+      rw [if_pos (by rw [i32_ge64, hs]; simp), (two_word_hi _ _ t h2).2, Bool.eq_iff_iff, beq_iff_eq,
+        decide_eq_true_eq, ← UInt64.toNat_inj, UInt64.toNat_or, shl_i32 _ _ (64 - t) e128 (by omega), shl_keep _ t (by omega),
+        UInt64.toNat_zero, Nat.or_eq_zero_iff]
+      have hp : 0 < 2^(64-t) := Nat.pow_pos (by decide)
+      constructor
+      · rintro ⟨a, b⟩
+        have : CT.w3.toNat % 2^t = 0 := by
+          rcases Nat.eq_zero_or_pos (CT.w3.toNat % 2^t) with h | h
+          · exact h
+          · exact absurd b (Nat.ne_of_gt (Nat.mul_pos h hp))
+        rw [this, a, Nat.zero_mul]
+      · intro a
+        generalize CT.w3.toNat % 2^t = A at *
+        have h1 : A = 0 := by omega
+        have h2' : CT.w2.toNat = 0 := by omega
+        exact ⟨h2', by rw [h1, Nat.zero_mul]⟩
+  have hlt := ltK_chain _ K hK CT.w1 CT.w0
+  have hE := fun CR' => quantDownE_spec sx ey rmode f CT CR' amount extra K hK s hs hs1 hs2 hs64
+  have hcode : quantDownD sx ey rm rmode f CT ⟨CT.w2, CT.w3⟩ CR amount extra =
+      if (decide (md rm = .rne) && decide (bitsOf CR % 2 = 1)) = true then
+        if (decide ((CT.w3.toNat * 2^64 + CT.w2.toNat) % 2^s = 0) &&
+            decide (CT.w1.toNat * 2^64 + CT.w0.toNat < bitsOf K)) = true then
+          downFin sx ey { w0 := CR.w0 - 1, w1 := CR.w1 } f (exactCond (md rmode) ((CT.w3.toNat * 2^64 + CT.w2.toNat) % 2^s)
+            (CT.w1.toNat * 2^64 + CT.w0.toNat) (bitsOf K) s)
+        else downFin sx ey CR f (exactCond (md rmode) ((CT.w3.toNat * 2^64 + CT.w2.toNat) % 2^s)
+            (CT.w1.toNat * 2^64 + CT.w0.toNat) (bitsOf K) s)
+      else downFin sx ey CR f (exactCond (md rmode) ((CT.w3.toNat * 2^64 + CT.w2.toNat) % 2^s)
+            (CT.w1.toNat * 2^64 + CT.w0.toNat) (bitsOf K) s) := by
+    unfold quantDownD
+    simp only [bind, pure, Except.pure]
+    rw [mode_ne, hodd, hrem, guard_chain _ _ _ hlt, hE, hE]
+  rw [hcode]
+  by_cases hc : md rm = .rne ∧ bitsOf CR % 2 = 1
+  · by_cases hd : (CT.w3.toNat * 2^64 + CT.w2.toNat) % 2^s = 0 ∧ CT.w1.toNat * 2^64 + CT.w0.toNat < bitsOf K
+    · refine ⟨{ w0 := CR.w0 - 1, w1 := CR.w1 }, ?_, by rw [if_pos (by simpa using hc), if_pos (by simpa using hd)]⟩
+      rw [if_pos ⟨hc.1, hc.2, hd.1, hd.2⟩]
+      have hw := CR.w0.toNat_lt
+      have hodd' := hc.2
+      unfold bitsOf at hodd' ⊢
+      show CR.w1.toNat * 2^64 + (CR.w0 - 1).toNat = CR.w1.toNat * 2^64 + CR.w0.toNat - 1
+      rw [UInt64.toNat_sub, UInt64.toNat_one]
+      omega
+    · exact ⟨CR, by rw [if_neg (fun h => hd ⟨h.2.2.1, h.2.2.2⟩)],
+        by rw [if_pos (by simpa using hc), if_neg (by simpa using hd)]⟩
+  · exact ⟨CR, by rw [if_neg (fun h => hc ⟨h.1, h.2.1⟩)], by rw [if_neg (by simpa using hc)]⟩
+
+
+/-- `CR = CX2 >> amount`: the quotient by `2^s` of the high 128 bits of the product -/
+theorem cr_value (CT : U256) (amount : Int32) (s : Nat) (hs : amount.toInt = s) (hs1 : 1 ≤ s) (hs2 : s ≤ 127) :
+    ∃ CR, bitsOf CR = (CT.w3.toNat * 2^64 + CT.w2.toNat) / 2^s ∧
+      (if decide (amount ≥ 64) = true then
+          Except.ok ({ w0 := CT.w3 >>> UInt64.ofInt (toI (amount - (64 : Int32))), w1 := 0 } : U128)
+        else shr_128 ⟨CT.w2, CT.w3⟩ amount) = Except.ok CR := by
+  have h2 := CT.w2.toNat_lt; have h3 := CT.w3.toNat_lt
+  by_cases h : s ≤ 63
+  · rw [if_neg (by rw [i32_ge64, hs]; simp; omega)]
+    obtain ⟨r, hr, pr'⟩ := Dec.C13GenPack.shr_128_bridge ⟨CT.w2, CT.w3⟩ amount (by omega) (by omega)
+    refine ⟨r, ?_, hr⟩
+    rw [hs] at pr'
+    have e0 : r.w0.toNat = CT.w2.toNat / 2^s ||| CT.w3.toNat * 2^(64-s) % 2^64 := by
+      have := congrArg Prod.fst pr'
+      simp only [Dec.C13GenPack.pr, Dec.PackH.shr_128, Dec.PackH.shr64, Dec.PackH.shl64, Int.toNat_natCast,
+        Nat.shiftRight_eq_div_pow, Nat.shiftLeft_eq] at this
+      exact this
+    have e1 : r.w1.toNat = CT.w3.toNat / 2^s := by
+      have := congrArg Prod.snd pr'
+      simp only [Dec.C13GenPack.pr, Dec.PackH.shr_128, Dec.PackH.shr64, Int.toNat_natCast, Nat.shiftRight_eq_div_pow] at this
+      exact this
+    unfold bitsOf
+    rw [e0, e1]
+    exact shr128_words _ _ s h3 h2 hs1 h
+  · obtain ⟨t, rfl⟩ : ∃ t, s = 64 + t := ⟨s - 64, by omega⟩
+    have e64 : (amount - (64 : Int32)).toInt = (t : Int) := by
+      rw [Dec.C13GenPack.sub40 amount (by omega), hs]; omega
+    rw [if_pos (by rw [i32_ge64, hs]; simp)]
+    refine ⟨_, ?_, rfl⟩
+    unfold bitsOf
+    show (0 : UInt64).toNat * 2^64 + (CT.w3 >>> UInt64.ofInt (toI (amount - (64 : Int32)))).toNat = _
+    rw [shr_i32 _ _ t e64 (by omega), (two_word_hi _ _ t h2).1, UInt64.toNat_zero, Nat.zero_mul, Nat.zero_add]
+
+theorem quantDownC_spec (sx : UInt64) (ey : Int32) (rm rmode : RoundingMode) (f : UInt32) (CT : U256)
+    (amount extra : Int32) (K : U128) (hK : tbl128 Dec.Gen.BID_RECIPROCALS10_128 (UInt64.ofInt (toI extra)) = .ok K)
+    (s : Nat) (hs : amount.toInt = s) (hs1 : 1 ≤ s) (hs2 : s ≤ 127) (hs64 : s ≠ 64) :
+    ∃ CR', bitsOf CR' = (if md rm = .rne ∧ (CT.w3.toNat * 2^64 + CT.w2.toNat) / 2^s % 2 = 1 ∧
+          (CT.w3.toNat * 2^64 + CT.w2.toNat) % 2^s = 0 ∧ CT.w1.toNat * 2^64 + CT.w0.toNat < bitsOf K
+        then (CT.w3.toNat * 2^64 + CT.w2.toNat) / 2^s - 1 else (CT.w3.toNat * 2^64 + CT.w2.toNat) / 2^s) ∧
+      quantDownC sx ey rm rmode f CT ⟨CT.w2, CT.w3⟩ amount extra =
+        downFin sx ey CR' f (exactCond (md rmode) ((CT.w3.toNat * 2^64 + CT.w2.toNat) % 2^s)
+          (CT.w1.toNat * 2^64 + CT.w0.toNat) (bitsOf K) s) := by
+  obtain ⟨CR, hCR, hcode⟩ := cr_value CT amount s hs hs1 hs2
+  obtain ⟨CR', h1, h2⟩ := quantDownD_spec sx ey rm rmode f CT CR amount extra K hK s hs hs1 hs2 hs64
+  refine ⟨CR', by rw [h1, hCR], ?_⟩
+  rw [← h2]
+  unfold quantDownC
+  simp only [bind, pure, Except.pure]
+  by_cases h : amount ≥ 64
+  · rw [if_pos (by simpa using h)] at hcode ⊢
+    rw [Except.ok.inj hcode]
+  · rw [if_neg (by simpa using h)] at hcode ⊢
+    rw [hcode, bind_ok]
+
+
+/-- the fraction of the scaled product below bit `128 + s`, in terms of the two halves of the product -/
+theorem frac_forms (N s Kv : Nat) (hs : 1 ≤ s) (hK : Kv < 2^128) :
+    N / 2^(128+s) = N / 2^128 / 2^s ∧
+    (N % 2^(128+s) < Kv ↔ (N / 2^128 % 2^s = 0 ∧ N % 2^128 < Kv)) ∧
+    ((2^(128+s-1) ≤ N % 2^(128+s) ∧ N % 2^(128+s) < 2^(128+s-1) + Kv) ↔ (N / 2^128 % 2^s = 2^(s-1) ∧ N % 2^128 < Kv)) ∧
+    (2^(128+s) ≤ N % 2^(128+s) + Kv ↔ 2^s ≤ N / 2^128 % 2^s + (if 2^128 ≤ N % 2^128 + Kv then 1 else 0)) := by
+  have hl : N % 2^128 < 2^128 := Nat.mod_lt _ (by positivity)
+  have hdm := Nat.div_add_mod N (2^128)
+  have hfr : N % 2^(128+s) = N % 2^128 + 2^128 * (N / 2^128 % 2^s) := by
+    have := Dec.C13PackHelpers.frac_eq (N / 2^128) (N % 2^128) s hl
+    rw [Nat.add_comm (N % 2^128), hdm] at this
+    exact this
+  have hr : N / 2^128 % 2^s < 2^s := Nat.mod_lt _ (by positivity)
+  have e1 : 2^(128+s-1) = 2^128 * 2^(s-1) := by rw [← Nat.pow_add]; congr 1; omega
+  have e2 : 2^(128+s) = 2^128 * 2^s := Nat.pow_add _ _ _
+  have e3 : 2^s = 2 * 2^(s-1) := by rw [← Nat.pow_succ']; congr 1; omega
+  refine ⟨by rw [Nat.pow_add, Nat.div_div_eq_div_mul], ?_, ?_, ?_⟩
+  · rw [hfr]
+    generalize N / 2^128 % 2^s = h at *
+    generalize N % 2^128 = l at *
+    constructor
+    · intro a
+      have : h = 0 := by
+        rcases Nat.eq_zero_or_pos h with h0 | h0
+        · exact h0
+        · exfalso; have : 2^128 * 1 ≤ 2^128 * h := Nat.mul_le_mul_left _ h0; omega
+      subst this; exact ⟨rfl, by omega⟩
+    · rintro ⟨a, b⟩; subst a; omega
+  · rw [hfr, e1]
+    generalize N / 2^128 % 2^s = h at *
+    generalize N % 2^128 = l at *
+    generalize 2^(s-1) = P at *
+    constructor
+    · rintro ⟨a, b⟩
+      have h1 : P ≤ h := by
+        by_contra hc
+        have : 2^128 * (h + 1) ≤ 2^128 * P := Nat.mul_le_mul_left _ (by omega)
+        rw [Nat.mul_add] at this; omega
+      have h2 : h ≤ P := by
+        by_contra hc
+        have : 2^128 * (P + 1) ≤ 2^128 * h := Nat.mul_le_mul_left _ (by omega)
+        rw [Nat.mul_add] at this; omega
+      have : h = P := by omega
+      subst this; exact ⟨rfl, by omega⟩
+    · rintro ⟨a, b⟩; subst a; omega
+  · rw [hfr, e2]
+    generalize N / 2^128 % 2^s = h at *
+    generalize N % 2^128 = l at *
+    generalize 2^s = S at *
+    by_cases hc : 2^128 ≤ l + Kv
+    · rw [if_pos hc]
+      constructor
+      · intro a
+        by_contra hcon
+        have : 2^128 * (h + 2) ≤ 2^128 * S := Nat.mul_le_mul_left _ (by omega)
+        rw [Nat.mul_add] at this; omega
+      · intro a
+        have : 2^128 * S ≤ 2^128 * (h + 1) := Nat.mul_le_mul_left _ a
+        rw [Nat.mul_add] at this; omega
+    · rw [if_neg hc]
+      constructor
+      · intro a
+        by_contra hcon
+        have : 2^128 * (h + 1) ≤ 2^128 * S := Nat.mul_le_mul_left _ (by omega)
+        rw [Nat.mul_add] at this; omega
+      · intro a; omega
+
+
+/-- `__add_128_128`: the sum modulo 2^128 -/
+theorem add_128_128_ok (A B : U128) : ∃ r, add_128_128 A B = .ok r ∧ bitsOf r = (bitsOf A + bitsOf B) % 2^128 := by
+  have := A.w0.toNat_lt; have := A.w1.toNat_lt; have := B.w0.toNat_lt; have := B.w1.toNat_lt
+  simp only [add_128_128, bind, Except.bind, pure, Except.pure]
+  by_cases h : B.w0 + A.w0 < B.w0
+  · simp only [h, decide_true, if_true]
+    refine ⟨_, rfl, ?_⟩
+    rw [UInt64.lt_iff_toNat_lt, UInt64.toNat_add] at h
+    unfold bitsOf
+    simp only [UInt64.toNat_add, UInt64.toNat_one]
+    omega
+  · simp only [h, decide_false, Bool.false_eq_true, if_false]
+    refine ⟨_, rfl, ?_⟩
+    rw [UInt64.lt_iff_toNat_lt, UInt64.toNat_add] at h
+    unfold bitsOf
+    simp only [UInt64.toNat_add]
+    omega
+
+open Dec.C13PackHelpers in
+theorem recipS_ne64 : ∀ x < 36, recipS x ≠ 64 := by decide +kernel
+
+theorem i32_neg_ofInt (xd : Nat) (h : xd ≤ 34) : (-(Int32.ofInt (-(xd : Int)))).toInt = xd := by
+  rw [Int32.toInt_neg, Int32.toInt_ofInt_of_le (by omega) (by omega), bmod32 _ (by omega) (by omega)]; omega
+
+
+open Dec.C13PackHelpers Dec.PackH in
+/-- the scale-down branch once the (sign-adjusted) rounding mode is known -/
+theorem quantDownB_spec (sw : UInt64) (sg : Bool) (hsg : sw.toNat = if sg then 2^63 else 0) (Ey : Nat) (hEy : Ey ≤ 12287)
+    (C : Nat) (hC0 : 0 < C) (hC : C < 10^34) (xd : Nat) (h1 : 1 ≤ xd) (h2 : xd ≤ 34) (rm rmode : RoundingMode) (f : UInt32)
+    (hrm : md rmode = ufRmode sw.toNat (md rm)) :
+    quantDownB sw (Int32.ofInt Ey) (ofBits C) (Int32.ofInt (-(xd : Int))) rm rmode f =
+      .ok (ofBits (encode (.fin sg (roundInt (md rm) sg (C / 10^xd) (C % 10^xd) (10^xd)) ((Ey : Int) - 6176))),
+        if C % 10^xd = 0 then f else f ||| 32) := by
+  have hex := i32_neg_ofInt xd h2
+  have h128 : (10:Nat)^34 < 2^113 := by decide +kernel
+  have hbC : bitsOf (ofBits C) = C := bitsOf_ofBits C (by omega)
+  -- the three tables
+  have hg := rowGood_of xd h1 (by omega)
+  simp only [rowGood, Bool.and_eq_true, decide_eq_true_eq] at hg
+  obtain ⟨⟨⟨⟨⟨⟨g1, g2⟩, g3⟩, g4⟩, g5⟩, g6⟩, _⟩ := hg
+  obtain ⟨Tc, hT, pT⟩ := Dec.C13GenPack.roundConst_bridge rmode (-(Int32.ofInt (-(xd : Int)))) _
+    (by rw [hex]; exact roundConst_eq (md rmode) xd h1 (by omega))
+  obtain ⟨K, hK, pK⟩ := Dec.C13GenPack.recip_bridge (-(Int32.ofInt (-(xd : Int)))) _ (by rw [hex]; exact recip_eq xd (by omega))
+  obtain ⟨amount, hA, vA, _, _⟩ := Dec.C13GenPack.recipScale_bridge (-(Int32.ofInt (-(xd : Int)))) _
+    (by rw [hex]; exact recipScale_eq xd (by omega))
+  obtain ⟨sA, sB⟩ := recip_scale_range xd (by omega)
+  have s64 := recipS_ne64 xd (by omega)
+  -- values
+  have hP : 0 < 10^xd := Nat.pow_pos (by decide)
+  have hPle : 10^xd ≤ 10^34 := Nat.pow_le_pow_right (by decide) h2
+  have hTlt := roundT_lt (md rmode) (10^xd) hP
+  have hTv : bitsOf Tc = roundT (md rmode) (10^xd) := by
+    have := w128_val (roundT (md rmode) (10^xd))
+    rw [← pT] at this
+    unfold bitsOf; simp only [Dec.C13GenPack.pr] at this; omega
+  have hKv : bitsOf K = recipK xd := by
+    unfold recipK bitsOf; rw [← pK]; simp only [Dec.C13GenPack.pr]; omega
+  have hKlt : bitsOf K < 2^128 := bitsOf_lt K
+  obtain ⟨CX', hadd, vadd⟩ := add_128_128_ok (ofBits C) Tc
+  rw [hbC, hTv, Nat.mod_eq_of_lt (by omega)] at vadd
+  obtain ⟨CT, hmul, vmul⟩ := mul_128x128_to_256_ok CX' K
+  rw [vadd] at vmul
+  -- the arithmetic
+  obtain ⟨H, hH⟩ : ∃ H, 10 ^ xd = 2 * H := by
+    obtain ⟨j, rfl⟩ : ∃ j, xd = j + 1 := ⟨xd - 1, by omega⟩
+    exact ⟨5 * 10 ^ j, by rw [Nat.pow_succ]; ring⟩
+  have hKP : recipK xd * 10 ^ xd = 2 ^ (128 + recipS xd) + (recipK xd * 10 ^ xd - 2 ^ (128 + recipS xd)) := by omega
+  have h35 : (10:Nat)^34 ≤ 10^35 := by norm_num
+  obtain ⟨r1, r2⟩ := uf_arith (md rm) sw.toNat C (10 ^ xd) H (recipK xd) (128 + recipS xd) _ (10 ^ 35)
+    hH (by omega) (by omega) hKP g6 (by omega)
+  rw [← hrm] at r1 r2
+  have hN : val256 CT = (C + roundT (md rmode) (10^xd)) * recipK xd := by rw [vmul, hKv]
+  obtain ⟨f1, f2, f3, f4⟩ := frac_forms (val256 CT) (recipS xd) (bitsOf K) sA hKlt
+  have hQh : val256 CT / 2^128 = CT.w3.toNat * 2^64 + CT.w2.toNat := by
+    have := CT.w0.toNat_lt; have := CT.w1.toNat_lt; have := CT.w2.toNat_lt
+    unfold val256; omega
+  have hQl : val256 CT % 2^128 = CT.w1.toNat * 2^64 + CT.w0.toNat := by
+    have := CT.w0.toNat_lt; have := CT.w1.toNat_lt; have := CT.w2.toNat_lt
+    unfold val256; omega
+  rw [hQh] at f1 f2 f3 f4
+  rw [hQl] at f2 f3 f4
+  obtain ⟨CR', hCR, hcode⟩ := quantDownC_spec sw (Int32.ofInt Ey) rm rmode f CT amount (-(Int32.ofInt (-(xd : Int)))) K hK
+    (recipS xd) vA sA (by omega) s64
+  unfold quantDownB
+  simp only [bind, pure, Except.pure]
+  rw [hT, bind_ok, hadd, bind_ok, hK, bind_ok, hmul, bind_ok, hA, bind_ok, hcode]
+  have hsd : decide (sw.toNat ≠ 0) = sg := by
+    cases sg
+    · simp only [Bool.false_eq_true, if_false] at hsg; rw [hsg]; rfl
+    · simp only [if_true] at hsg; rw [hsg]; rfl
+  rw [hsd] at r1
+  rw [← hN, ← hKv] at r1 r2
+  -- the coefficient
+  have hval : bitsOf CR' = roundInt (md rm) sg (C / 10^xd) (C % 10^xd) (10^xd) := by
+    rw [hCR, ← r1, f1]
+    by_cases hc : md rm = .rne ∧ (CT.w3.toNat * 2^64 + CT.w2.toNat) / 2^(recipS xd) % 2 = 1 ∧
+        (CT.w3.toNat * 2^64 + CT.w2.toNat) % 2^(recipS xd) = 0 ∧ CT.w1.toNat * 2^64 + CT.w0.toNat < bitsOf K
+    · rw [if_pos hc, if_pos ⟨hc.1, hc.2.1, f2.2 ⟨hc.2.2.1, hc.2.2.2⟩⟩]
+    · rw [if_neg hc, if_neg (fun h => hc ⟨h.1, h.2.1, (f2.1 h.2.2).1, (f2.1 h.2.2).2⟩)]
+  -- exactness
+  have hex2 : exactCond (md rmode) ((CT.w3.toNat * 2^64 + CT.w2.toNat) % 2^(recipS xd)) (CT.w1.toNat * 2^64 + CT.w0.toNat)
+      (bitsOf K) (recipS xd) = decide (C % 10^xd = 0) := by
+    rw [← r2]
+    unfold exactCond
+    cases md rmode <;> simp only [] <;> rw [decide_eq_decide]
+    · exact f3.symm
+    · exact f2.symm
+    · exact f4.symm
+    · exact f2.symm
+    · exact f3.symm
+  rw [hex2]
+  have hle := roundInt_le (md rm) sg (C / 10^xd) (C % 10^xd) (10^xd)
+  have hq : C / 10^xd < 10^33 + 1 := by
+    have : C / 10^xd ≤ C := Nat.div_le_self _ _
+    have : C / 10^xd ≤ 10^34 / 10 := by
+      calc C / 10^xd ≤ C / 10^1 := Nat.div_le_div_left (Nat.pow_le_pow_right (by decide) h1) (by decide)
+        _ ≤ 10^34 / 10^1 := Nat.div_le_div_right (by omega)
+        _ = 10^34 / 10 := by norm_num
+    have e : (10:Nat)^34 / 10 = 10^33 := by norm_num
+    omega
+  have hlt : roundInt (md rm) sg (C / 10^xd) (C % 10^xd) (10^xd) < 10^34 := by
+    have : (10:Nat)^33 + 2 ≤ 10^34 := by norm_num
+    omega
+  have hCRe : CR' = ofBits (roundInt (md rm) sg (C / 10^xd) (C % 10^xd) (10^xd)) := eq_ofBits CR' _ hval
+  unfold downFin
+  rw [hCRe, very_fast_words sw sg hsg Ey (by omega) (by omega) _ hlt, bind_ok]
+  by_cases hz : C % 10^xd = 0
+  · simp only [hz, decide_true, if_true]
+  · simp only [hz, decide_false, Bool.false_eq_true, if_false]
+
+
+/-- **the scale-down branch of `quantize`**: `xd = 1 … 34` digits are removed from a non-zero coefficient below 10^34:
+the result is the coefficient divided by `10^xd` and rounded to an integer in the given mode and sign (`roundInt`), with
+the exponent of `y`; inexact is raised iff `10^xd` does not divide the coefficient -/
+theorem quantDown_spec' (sw : UInt64) (s : Bool) (hs : sw.toNat = if s then 2^63 else 0) (Ey : Nat) (hEy : Ey ≤ 12287)
+    (C : Nat) (hC0 : 0 < C) (hC : C < 10^34) (xd : Nat) (h1 : 1 ≤ xd) (h2 : xd ≤ 34) (m : RoundingMode) (f : UInt32) :
+    quantDown sw (Int32.ofInt Ey) (ofBits C) (Int32.ofInt (-(xd : Int))) m f =
+      .ok (ofBits (encode (.fin s (roundInt (md m) s (C / 10^xd) (C % 10^xd) (10^xd)) ((Ey : Int) - 6176))),
+        f ||| (if C % 10^xd = 0 then 0 else 32)) := by
+  have hfl : (if C % 10^xd = 0 then f else f ||| 32) = f ||| (if C % 10^xd = 0 then 0 else 32) := by
+    split
+    · exact UInt32.or_zero.symm
+    · rfl
+  obtain ⟨r, hr, hcase⟩ := Dec.C13GenPack.rmode_data sw m
+  rw [quantDown_shape]
+  unfold quantDownA
+  simp only [bind, pure, Except.pure]
+  rcases hcase with ⟨hc, hv⟩ | ⟨hc, he⟩
+  · rw [if_pos hc, hv, bind_ok, quantDownB_spec sw s hs Ey hEy C hC0 hC xd h1 h2 m r f hr, hfl]
+  · rw [he] at hr
+    rw [if_neg (by rw [hc]; decide), quantDownB_spec sw s hs Ey hEy C hC0 hC xd h1 h2 m m f hr, hfl]
+
+
+/-! ### B.3 digit count, dispatch, scale-up, far-below and invalid branches -/
+
+
+def quantDispatch (sign_x : UInt64) (exponent_x exponent_y : Int32) (CX : U128) (digits_x : Int32) (rnd_mode : RoundingMode) (pfpsf_ : UInt32) : Except String (U128 × UInt32) := do
+  let mut pfpsf : UInt32 := pfpsf_
+  let mut T : U128 := default
+  let mut CX2 : U128 := default
+  let mut CR : U128 := default
+  let mut res : U128 := default
+  let mut expon_diff : Int32 := default
+  let mut total_digits : Int32 := default
+  let mut rmode : RoundingMode := default
+  expon_diff := (exponent_x - exponent_y)
+  total_digits := (digits_x + expon_diff)
+  if (decide (((UInt32.ofInt (toI total_digits))) ≤ (0x22 : UInt32))) then
+    if (decide (expon_diff ≥ (0 : Int32))) then
+      T := (← tbl128 Dec.Gen.BID_POWER10_TABLE_128 (UInt64.ofInt (toI expon_diff)))
+      CX2 := (← mul_128x128_low T CX)
+      res := (← bid_get_BID128_very_fast sign_x exponent_y CX2)
+      return (res, pfpsf)
+    return (← quantDown sign_x exponent_y CX expon_diff rnd_mode pfpsf)
+  if (decide (total_digits < (0 : Int32))) then
+    CR := { CR with w1 := (0 : UInt64) }
+    CR := { CR with w0 := (0 : UInt64) }
+    rmode := rnd_mode
+    if ((sign_x != (0 : UInt64)) && ((decide ((((UInt32.ofInt (toI rmode)) - (1 : UInt32))) < (2 : UInt32))))) then
+      rmode := (← RoundingMode.fromU32 ((3 : UInt32) - ((UInt32.ofInt (toI rmode)))))
+    if (rmode == RoundingMode.Upward) then
+      CR := { CR with w0 := (1 : UInt64) }
+    let t__12 ← set_status_flags pfpsf c_StatusFlags_BID_INEXACT_EXCEPTION
+    pfpsf := t__12
+    res := (← bid_get_BID128_very_fast sign_x exponent_y CR)
+    return (res, pfpsf)
+  let t__13 ← set_status_flags pfpsf c_StatusFlags_BID_INVALID_EXCEPTION
+  pfpsf := t__13
+  res := { res with w1 := (0x7c00000000000000 : UInt64) }
+  res := { res with w0 := (0 : UInt64) }
+  return (res, pfpsf)
+
+def quantAfterEst (sign_x : UInt64) (exponent_x exponent_y : Int32) (CX : U128) (rnd_mode : RoundingMode) (pfpsf : UInt32) (digits_x_ : Int32) : Except String (U128 × UInt32) := do
+  let mut digits_x : Int32 := digits_x_
+  if (← (if (decide (CX.w1 > (← tbl128 Dec.Gen.BID_POWER10_TABLE_128 (UInt64.ofInt (toI digits_x))).w1)) then pure true else (do pure ((← (if (CX.w1 == (← tbl128 Dec.Gen.BID_POWER10_TABLE_128 (UInt64.ofInt (toI digits_x))).w1) then (do pure (decide (CX.w0 ≥ (← tbl128 Dec.Gen.BID_POWER10_TABLE_128 (UInt64.ofInt (toI digits_x))).w0))) else pure false)))))) then
+    digits_x := (digits_x + 1)
+  quantDispatch sign_x exponent_x exponent_y CX digits_x rnd_mode pfpsf
+
+def quantMainA (sign_x : UInt64) (exponent_x exponent_y : Int32) (CX : U128) (rnd_mode : RoundingMode) (pfpsf : UInt32) : Except String (U128 × UInt32) := do
+  let mut tempx : F32U := default
+  let mut bin_expon_cx : Int32 := default
+  if (CX.w1 != (0 : UInt64)) then
+    tempx := (F32U.ofU64 (UInt64.ofInt (toI CX.w1)))
+    bin_expon_cx := (Int32.ofInt (toI (((((((tempx.bits >>> 0x17)) &&& (0xff : UInt32))) - (0x7f : UInt32)) + (0x40 : UInt32)))))
+  else
+    tempx := (F32U.ofU64 (UInt64.ofInt (toI CX.w0)))
+    bin_expon_cx := (Int32.ofInt (toI ((((((tempx.bits >>> 0x17)) &&& (0xff : UInt32))) - (0x7f : UInt32)))))
+  quantAfterEst sign_x exponent_x exponent_y CX rnd_mode pfpsf (← tblI32 Dec.Gen.BID_ESTIMATE_DECIMAL_DIGITS (UInt64.ofInt (toI bin_expon_cx)))
+
+theorem quantMain2_shape (sx : UInt64) (ex ey : Int32) (CX : U128) (m : RoundingMode) (f : UInt32) :
+    quantMain2 sx ex ey CX m f = quantMainA sx ex ey CX m f := by
+  rfl
+
+
+/-! ### table look-ups and small arithmetic of the numeric part -/
+
+theorem pow10_all : (List.range 39).all (fun j =>
+    match tbl128 Dec.Gen.BID_POWER10_TABLE_128 (UInt64.ofNat j) with
+    | .ok v => decide (bitsOf v = 10^j)
+    | .error _ => false) = true := by
+  decide +kernel
+
+theorem pow10_get (j : Nat) (hj : j < 39) : ∃ v, tbl128 Dec.Gen.BID_POWER10_TABLE_128 (UInt64.ofNat j) = .ok v ∧ bitsOf v = 10^j := by
+  have h := List.all_eq_true.1 pow10_all j (List.mem_range.2 hj)
+  cases ht : tbl128 Dec.Gen.BID_POWER10_TABLE_128 (UInt64.ofNat j) with
+  | error e => rw [ht] at h; exact absurd h (by simp)
+  | ok v => rw [ht] at h; exact ⟨v, rfl, by simpa using h⟩
+
+theorem est_all : (List.range 129).all (fun j =>
+    match tblI32 Dec.Gen.BID_ESTIMATE_DECIMAL_DIGITS (UInt64.ofNat j) with
+    | .ok v => decide (v.toInt = ((Dec.Gen.BID_ESTIMATE_DECIMAL_DIGITS.getD j 0 : Nat) : Int))
+    | .error _ => false) = true := by
+  decide +kernel
+
+theorem est_get (j : Nat) (hj : j < 129) : ∃ v, tblI32 Dec.Gen.BID_ESTIMATE_DECIMAL_DIGITS (UInt64.ofNat j) = .ok v ∧
+    v.toInt = ((Dec.Gen.BID_ESTIMATE_DECIMAL_DIGITS.getD j 0 : Nat) : Int) := by
+  have h := List.all_eq_true.1 est_all j (List.mem_range.2 hj)
+  cases ht : tblI32 Dec.Gen.BID_ESTIMATE_DECIMAL_DIGITS (UInt64.ofNat j) with
+  | error e => rw [ht] at h; exact absurd h (by simp)
+  | ok v => rw [ht] at h; exact ⟨v, rfl, by simpa using h⟩
+
+/-- `__mul_128x128_low`: the product modulo 2^128 -/
+theorem mul_128x128_low_ok (A B : U128) :
+    ∃ r, mul_128x128_low A B = .ok r ∧ bitsOf r = bitsOf A * bitsOf B % 2^128 := by
+  obtain ⟨p, hp, vp⟩ := mul_64x64_to_128_ok A.w0 B.w0
+  simp only [mul_128x128_low, bind, Except.bind, pure, Except.pure, hp]
+  refine ⟨_, rfl, ?_⟩
+  have := A.w0.toNat_lt; have := A.w1.toNat_lt; have := B.w0.toNat_lt; have := B.w1.toNat_lt
+  have := p.w0.toNat_lt; have := p.w1.toNat_lt
+  unfold bitsOf
+  simp only [UInt64.toNat_add, UInt64.toNat_mul]
+  have hd : (A.w1.toNat * 2^64 + A.w0.toNat) * (B.w1.toNat * 2^64 + B.w0.toNat)
+      = A.w1.toNat * B.w1.toNat * 2^128 + (B.w0.toNat * A.w1.toNat + A.w0.toNat * B.w1.toNat) * 2^64 + A.w0.toNat * B.w0.toNat := by ring
+  rw [hd, ← vp]
+  generalize A.w1.toNat * B.w1.toNat = HH
+  generalize B.w0.toNat * A.w1.toNat = M1
+  generalize A.w0.toNat * B.w1.toNat = M2
+  rw [Nat.add_assoc, Nat.mul_comm HH, Nat.mul_add_mod]
+  generalize p.w1.toNat = p1 at *
+  generalize p.w0.toNat = p0 at *
+  clear vp hp hd
+  omega
+
+
+open Dec.C13GenPack (md swap_cond swap_val swapR)
+
+theorem i32_nat (n : Nat) (h : n < 2^31) : (Int32.ofInt (n : Int)).toInt = n :=
+  Int32.toInt_ofInt_of_le (by omega) (by omega)
+
+theorem i32_sub_small (a b : Int32) (ha : -2^30 ≤ a.toInt ∧ a.toInt < 2^30) (hb : -2^30 ≤ b.toInt ∧ b.toInt < 2^30) :
+    (a - b).toInt = a.toInt - b.toInt := by
+  rw [Int32.toInt_sub, bmod32 _ (by omega) (by omega)]
+
+theorem i32_add_small (a b : Int32) (ha : -2^30 ≤ a.toInt ∧ a.toInt < 2^30) (hb : -2^30 ≤ b.toInt ∧ b.toInt < 2^30) :
+    (a + b).toInt = a.toInt + b.toInt := by
+  rw [Int32.toInt_add, bmod32 _ (by omega) (by omega)]
+
+theorem u32_le34 (t : Int32) : decide (UInt32.ofInt (toI t) ≤ 34) = decide (0 ≤ t.toInt ∧ t.toInt ≤ 34) := by
+  have h1 := t.toInt_lt; have h2 := t.le_toInt
+  rw [decide_eq_decide, UInt32.le_iff_toNat_le, toI_i32, show (34 : UInt32).toNat = 34 from by decide]
+  show (UInt32.ofNat (t.toInt % 2^32).toNat).toNat ≤ 34 ↔ _
+  rw [UInt32.toNat_ofNat']
+  omega
+
+theorem i32_ge0 (t : Int32) : decide (t ≥ 0) = decide (0 ≤ t.toInt) := by
+  rw [decide_eq_decide, ge_iff_le, Int32.le_iff_toInt_le]; rfl
+theorem i32_lt0 (t : Int32) : decide (t < 0) = decide (t.toInt < 0) := by
+  rw [decide_eq_decide, Int32.lt_iff_toInt_lt]; rfl
+
+theorem u64_of_i32_nonneg (t : Int32) (n : Nat) (h : t.toInt = n) : UInt64.ofInt (toI t) = UInt64.ofNat n := by
+  rw [toI_i32, h, u64_ofInt_nat]
+
+theorem quantDown_spec (sw : UInt64) (s : Bool) (hs : sw.toNat = if s then 2^63 else 0) (Ey : Nat) (hEy : Ey ≤ 12287)
+    (C : Nat) (hC0 : 0 < C) (hC : C < 10^34) (xd : Nat) (h1 : 1 ≤ xd) (h2 : xd ≤ 34) (m : RoundingMode) (f : UInt32) :
+    quantDown sw (Int32.ofInt Ey) (ofBits C) (Int32.ofInt (-(xd : Int))) m f =
+      .ok (ofBits (encode (.fin s (roundInt (md m) s (C / 10^xd) (C % 10^xd) (10^xd)) ((Ey : Int) - 6176))),
+        f ||| (if C % 10^xd = 0 then 0 else 32)) :=
+  quantDown_spec' sw s hs Ey hEy C hC0 hC xd h1 h2 m f
+
+theorem pow_lt_of_ndigits (C : Nat) (hC0 : 0 < C) : C < 10^(ndigits C) ∧ 10^(ndigits C - 1) ≤ C :=
+  ⟨(ndigits_spec hC0).2, (ndigits_spec hC0).1⟩
+
+
+theorem tiny_words (sw : UInt64) (s : Bool) (hs : sw.toNat = if s then 2^63 else 0) (Ey : Nat) (hEy : Ey ≤ 12287) (b : Bool) :
+    bid_get_BID128_very_fast sw (Int32.ofInt Ey) { w0 := if b then 1 else 0, w1 := 0 }
+      = .ok (ofBits (encode (.fin s (if b then 1 else 0) ((Ey : Int) - 6176)))) := by
+  have e : ({ w0 := if b then 1 else 0, w1 := 0 } : U128) = ofBits (if b then 1 else 0) := by cases b <;> decide
+  rw [e]
+  exact very_fast_words sw s hs Ey (by omega) (by omega) _ (by cases b <;> decide)
+
+theorem quantDispatch_spec (sw : UInt64) (s : Bool) (hs : sw.toNat = if s then 2^63 else 0) (Ex Ey : Nat)
+    (hEx : Ex ≤ 12287) (hEy : Ey ≤ 12287) (C : Nat) (hC0 : 0 < C) (hC : C < 10^34) (d : Int32)
+    (hd : d.toInt = ndigits C) (m : RoundingMode) (f : UInt32) (sy : Bool) (cy : Nat) :
+    quantDispatch sw (Int32.ofInt Ex) (Int32.ofInt Ey) (ofBits C) d m f =
+      .ok (ofBits (encode (quantizeD (md m) (.fin s C ((Ex : Int) - 6176)) (.fin sy cy ((Ey : Int) - 6176))).1),
+        f ||| UInt32.ofNat (quantizeD (md m) (.fin s C ((Ex : Int) - 6176)) (.fin sy cy ((Ey : Int) - 6176))).2) := by
+  have hx := i32_nat Ex (by omega)
+  have hy := i32_nat Ey (by omega)
+  have hq : ndigits C ≤ 34 := by rw [ndigits_le_iff hC0]; exact hC
+  have hq1 := ndigits_pos hC0
+  obtain ⟨hCu, hCl⟩ := pow_lt_of_ndigits C hC0
+  have hdiff : (Int32.ofInt (Ex : Int) - Int32.ofInt (Ey : Int)).toInt = (Ex : Int) - Ey := by
+    rw [i32_sub_small _ _ (by omega) (by omega), hx, hy]
+  have htot : (d + (Int32.ofInt (Ex : Int) - Int32.ofInt (Ey : Int))).toInt = (ndigits C : Int) + ((Ex : Int) - Ey) := by
+    rw [i32_add_small _ _ (by omega) (by omega), hdiff, hd]
+  have hC0' : C ≠ 0 := by omega
+  unfold quantDispatch
+  delta c_StatusFlags_BID_INVALID_EXCEPTION c_DEC_FE_INVALID c_StatusFlags_BID_INEXACT_EXCEPTION c_DEC_FE_INEXACT
+  simp only [bind, pure, Except.pure, set_status_flags, bind_pure, u32_le34, i32_ge0, i32_lt0, hdiff, htot]
+  simp only [quantizeD, hC0', if_false]
+  by_cases hA : 0 ≤ (ndigits C : Int) + ((Ex : Int) - Ey) ∧ (ndigits C : Int) + ((Ex : Int) - Ey) ≤ 34
+  · rw [if_pos (by simpa using hA)]
+    by_cases hU : (0 : Int) ≤ (Ex : Int) - Ey
+    · -- scale up
+      rw [if_pos (by simpa using hU)]
+      obtain ⟨k, hk⟩ : ∃ k : Nat, (Ex : Int) - Ey = k := ⟨(Ex - Ey : Nat), by omega⟩
+      have hk34 : ndigits C + k ≤ 34 := by omega
+      obtain ⟨v, hv, bv⟩ := pow10_get k (by omega)
+      obtain ⟨r, hr, br⟩ := mul_128x128_low_ok v (ofBits C)
+      have hprod : C * 10^k < 10^34 := by
+        calc C * 10^k < 10^(ndigits C) * 10^k := Nat.mul_lt_mul_of_pos_right hCu (Nat.pow_pos (by decide))
+          _ = 10^(ndigits C + k) := by rw [Nat.pow_add]
+          _ ≤ 10^34 := Nat.pow_le_pow_right (by decide) hk34
+      have h128 : (10:Nat)^34 < 2^128 := by decide +kernel
+      rw [bitsOf_ofBits C (by omega), bv, Nat.mul_comm, Nat.mod_eq_of_lt (by omega)] at br
+      have hre : r = ofBits (C * 10^k) := eq_ofBits r _ br
+      rw [u64_of_i32_nonneg _ k (by rw [hdiff, hk]), hv, bind_ok, hr, bind_ok, hre,
+        very_fast_words sw s hs Ey (by omega) (by omega) _ hprod, bind_ok]
+      have e1 : ((Ex : Int) - 6176 ≥ (Ey : Int) - 6176) := by omega
+      have e2 : ((Ex : Int) - 6176 - ((Ey : Int) - 6176)).toNat = k := by omega
+      rw [if_pos e1, e2, if_pos (by simp only [P34]; exact hprod)]
+      simp only [flag0]
+    · -- scale down
+      rw [if_neg (by simpa using hU)]
+      obtain ⟨xd, hxd⟩ : ∃ xd : Nat, (Ey : Int) - Ex = xd := ⟨(Ey - Ex : Nat), by omega⟩
+      have hde : Int32.ofInt (Ex : Int) - Int32.ofInt (Ey : Int) = Int32.ofInt (-(xd : Int)) := by
+        rw [← Int32.toInt_inj, hdiff, Int32.toInt_ofInt_of_le (by omega) (by omega)]; omega
+      rw [hde, quantDown_spec sw s hs Ey hEy C hC0 hC xd (by omega) (by omega) m f]
+      have e1 : ¬ ((Ex : Int) - 6176 ≥ (Ey : Int) - 6176) := by omega
+      have e2 : ((Ey : Int) - 6176 - ((Ex : Int) - 6176)).toNat = xd := by omega
+      rw [if_neg e1, e2]
+      by_cases hz : C % 10^xd = 0
+      · simp only [hz, if_true, flag0, UInt32.or_zero]
+      · simp only [hz, if_false, fInexact]; rfl
+  · rw [if_neg (by simpa using hA)]
+    by_cases hB : (ndigits C : Int) + ((Ex : Int) - Ey) < 0
+    · -- far below the quantum
+      rw [if_pos (by simpa using hB)]
+      obtain ⟨xd, hxd⟩ : ∃ xd : Nat, (Ey : Int) - Ex = xd := ⟨(Ey - Ex : Nat), by omega⟩
+      have hxn : ndigits C + 1 ≤ xd := by omega
+      have hsmall : 2 * C < 10^xd := by
+        calc 2 * C < 10 * 10^(ndigits C) := by omega
+          _ = 10^(ndigits C + 1) := by rw [Nat.pow_succ]; ring
+          _ ≤ 10^xd := Nat.pow_le_pow_right (by decide) hxn
+      have e1 : ¬ ((Ex : Int) - 6176 ≥ (Ey : Int) - 6176) := by omega
+      have e2 : ((Ey : Int) - 6176 - ((Ex : Int) - 6176)).toNat = xd := by omega
+      have hmod : C % 10^xd = C := Nat.mod_eq_of_lt (by omega)
+      rw [if_neg e1, e2, Dec.C13PackHelpers.roundInt_small (md m) s C (10^xd) hC0 hsmall]
+      simp only [hmod, hC0', if_false]
+      have hsw : (sw != 0) = s := by
+        cases s
+        · have : sw = 0 := by rw [← UInt64.toNat_inj]; simpa using hs
+          subst this; rfl
+        · have : sw = 0x8000000000000000 := by rw [← UInt64.toNat_inj]; simpa using hs
+          subst this; rfl
+      have hfl : f ||| UInt32.ofNat fInexact = f ||| 32 := rfl
+      have t1 := tiny_words sw s hs Ey hEy true
+      have t0 := tiny_words sw s hs Ey hEy false
+      simp only [if_true, if_false, Bool.false_eq_true] at t1 t0
+      rw [hsw, hfl]
+      cases s <;> cases m <;>
+        simp only [md, Bool.false_and, Bool.true_and, Bool.false_eq_true, if_false, if_true, bind_ok, reduceCtorEq, and_false,
+          false_and, or_false, false_or, and_true, true_and, decide_true, decide_false, t1, t0] <;> rfl
+    · -- more than 34 digits would be needed
+      rw [if_neg (by simpa using hB)]
+      obtain ⟨k, hk⟩ : ∃ k : Nat, (Ex : Int) - Ey = k := ⟨(Ex - Ey : Nat), by omega⟩
+      have hk34 : 35 ≤ ndigits C + k := by omega
+      have hprod : 10^34 ≤ C * 10^k := by
+        calc 10^34 ≤ 10^(ndigits C - 1 + k) := Nat.pow_le_pow_right (by decide) (by omega)
+          _ = 10^(ndigits C - 1) * 10^k := by rw [Nat.pow_add]
+          _ ≤ C * 10^k := Nat.mul_le_mul_right _ hCl
+      have e1 : ((Ex : Int) - 6176 ≥ (Ey : Int) - 6176) := by omega
+      have e2 : ((Ex : Int) - 6176 - ((Ey : Int) - 6176)).toNat = k := by omega
+      rw [if_pos e1, e2, if_neg (by simp only [P34]; omega), bind_ok, nan_words]
+      rfl
+
+
+theorem quantAfterEst_eq (sx : UInt64) (ex ey : Int32) (CX : U128) (m : RoundingMode) (f : UInt32) (d : Int32) (e0 : Nat)
+    (hd : d.toInt = e0) (he : e0 < 39) :
+    quantAfterEst sx ex ey CX m f d = quantDispatch sx ex ey CX (if 10^e0 ≤ bitsOf CX then d + 1 else d) m f := by
+  obtain ⟨v, hv, bv⟩ := pow10_get e0 he
+  unfold quantAfterEst
+  simp only [bind, pure, Except.pure]
+  rw [u64_of_i32_nonneg d e0 hd, hv, bind_ok]
+  have h0 := CX.w0.toNat_lt; have h1 := v.w0.toNat_lt
+  unfold bitsOf at bv ⊢
+  rw [← bv]
+  by_cases hA : CX.w1 > v.w1
+  · rw [if_pos (by simpa using hA), bind_ok, if_pos rfl, if_pos (by rw [gt_iff_lt, UInt64.lt_iff_toNat_lt] at hA; omega)]
+  · rw [if_neg (by simpa using hA), bind_ok]
+    by_cases hB : CX.w1 = v.w1
+    · rw [if_pos (by simpa using hB), bind_ok, bind_ok]
+      by_cases hC : CX.w0 ≥ v.w0
+      · rw [if_pos (by simpa using hC), if_pos (by rw [ge_iff_le, UInt64.le_iff_toNat_le] at hC; rw [hB]; omega)]
+      · rw [if_neg (by simpa using hC), if_neg (by rw [ge_iff_le, UInt64.le_iff_toNat_le] at hC; rw [hB]; omega)]
+    · rw [if_neg (by simpa using hB), bind_ok, if_neg (by decide), if_neg (by
+        rw [gt_iff_lt, UInt64.lt_iff_toNat_lt] at hA; rw [← UInt64.toNat_inj] at hB; omega)]
+
+
+/-- the exponent field of `n as f32` (round to nearest even): the position of the leading bit, or one more when the
+24-bit rounding carries into the next power of two — which needs `n` within `2^(i−25)` of `2^i` -/
+theorem float_exp32 (n : Nat) (h0 : 0 < n) (h : n < 2^64) :
+    ∃ i, floatBitsOfNat 23 127 n / 2^23 = i + 127 ∧ floatBitsOfNat 23 127 n < 2^31 ∧ i ≤ 64 ∧
+      ((2^i ≤ n ∧ n < 2^(i+1)) ∨ (25 ≤ i ∧ 2^i - 2^(i-25) ≤ n ∧ n < 2^i)) := by
+  have hne : n ≠ 0 := by omega
+  have hl : n.log2 < 64 := (Nat.log2_lt hne).2 h
+  have hlo : 2 ^ n.log2 ≤ n := Nat.log2_self_le hne
+  have hhi : n < 2 ^ (n.log2 + 1) := Nat.lt_log2_self
+  unfold floatBitsOfNat
+  simp only [hne, if_false]
+  generalize n.log2 = l at *
+  by_cases hs : l ≤ 23
+  · simp only [hs, if_true]
+    have e : 2 ^ l * 2 ^ (23 - l) = 2 ^ 23 := by rw [← Nat.pow_add]; congr 1; omega
+    have hp : 0 < 2 ^ (23 - l) := Nat.pow_pos (by decide)
+    have h1 : 2 ^ 23 ≤ n * 2 ^ (23 - l) := by rw [← e]; exact Nat.mul_le_mul_right _ hlo
+    have h2 : n * 2 ^ (23 - l) < 2 * 2 ^ 23 := by
+      rw [← e, ← Nat.mul_assoc, ← Nat.pow_succ']; exact Nat.mul_lt_mul_of_pos_right hhi hp
+    generalize n * 2 ^ (23 - l) = mm at *
+    exact ⟨l, by omega, by omega, by omega, Or.inl ⟨hlo, hhi⟩⟩
+  · simp only [hs, if_false]
+    obtain ⟨t, ht⟩ : ∃ t, l = 24 + t := ⟨l - 24, by omega⟩
+    subst ht
+    have esh : 24 + t - 23 = t + 1 := by omega
+    have esh1 : t + 1 - 1 = t := by omega
+    rw [esh, esh1]
+    have e1 : 2 ^ (24 + t) = 2^23 * (2 * 2^t) := by rw [Nat.pow_add]; norm_num; ring
+    have e2 : 2 ^ (24 + t + 1) = 2^24 * (2 * 2^t) := by rw [Nat.pow_add, Nat.pow_add]; norm_num; ring
+    have e3 : 2 ^ (t + 1) = 2 * 2^t := by rw [Nat.pow_succ]; ring
+    have hA : 0 < 2^t := Nat.pow_pos (by decide)
+    rw [e1] at hlo; rw [e2] at hhi; rw [e3]
+    obtain ⟨A, hAdef⟩ : ∃ A, 2^t = A := ⟨_, rfl⟩
+    rw [hAdef] at hA hlo hhi e1 e2 e3 ⊢
+    have hdm := Nat.div_add_mod n (2 * A)
+    have hr : n % (2 * A) < 2 * A := Nat.mod_lt _ (by omega)
+    have hq1 : 2^23 ≤ n / (2 * A) := by
+      rw [Nat.le_div_iff_mul_le (by omega)]; exact hlo
+    have hq2 : n / (2 * A) < 2^24 := by
+      rw [Nat.div_lt_iff_lt_mul (by omega)]; exact hhi
+    generalize n / (2 * A) = q at *
+    generalize n % (2 * A) = r at *
+    by_cases hup : (decide (r > A) || (r == A && q % 2 == 1)) = true
+    · rw [if_pos hup]
+      by_cases hq : q + 1 < 2^24
+      · refine ⟨24 + t, by omega, by omega, by omega, Or.inl ⟨by rw [e1]; exact hlo, by rw [e2]; exact hhi⟩⟩
+      · have hqe : q = 2^24 - 1 := by omega
+        have hrA : A ≤ r := by
+          simp only [Bool.or_eq_true, decide_eq_true_eq, Bool.and_eq_true, beq_iff_eq] at hup
+          omega
+        refine ⟨24 + t + 1, by omega, by omega, by omega, Or.inr ⟨by omega, ?_, by rw [e2]; exact hhi⟩⟩
+        rw [e2, show 24 + t + 1 - 25 = t from by omega, hAdef]
+        subst hqe
+        omega
+    · rw [if_neg hup]
+      refine ⟨24 + t, by omega, by omega, by omega, Or.inl ⟨by rw [e1]; exact hlo, by rw [e2]; exact hhi⟩⟩
+
+
+open Dec.TableFacts in
+/-- the estimate-and-correct digit count of `quantize` (exact bucket, or the bucket one too high when the `f32` conversion
+rounded up to a power of two) -/
+theorem digits_from_est (C : Nat) (hC0 : 0 < C) (hC : C < 10^34) (i : Nat)
+    (hi : (2^i ≤ C ∧ C < 2^(i+1)) ∨ (25 ≤ i ∧ 2^i - 2^(i-25) ≤ C ∧ C < 2^i)) :
+    i < 114 ∧ Dec.Gen.BID_ESTIMATE_DECIMAL_DIGITS.getD i 0
+      + (if 10^(Dec.Gen.BID_ESTIMATE_DECIMAL_DIGITS.getD i 0) ≤ C then 1 else 0) = ndigits C := by
+  have h113 : (10:Nat)^34 < 2^113 := by decide +kernel
+  have hC' : C < 2^113 := by omega
+  rcases hi with ⟨h1, h2⟩ | ⟨h1, h2, h3⟩
+  · have hlog : C.log2 = i := (Nat.log2_eq_iff (by omega)).2 ⟨h1, h2⟩
+    have hi113 : i < 113 := by rw [← hlog]; exact (Nat.log2_lt (by omega)).2 hC'
+    obtain ⟨r1, r2⟩ := est_p10idx_row i (by omega)
+    refine ⟨by omega, ?_⟩
+    have := estDigits_mechanism_ndigits hC0 hC'
+    unfold estDigitsLookup estDigitsAt at this
+    rw [hlog, r2] at this
+    rw [← this, r1]
+  · have hi114 : i < 114 := by
+      by_contra hcon
+      have hge : 2^113 ≤ 2^(i-1) := Nat.pow_le_pow_right (by decide) (by omega)
+      have e1 : 2^i = 2 * 2^(i-1) := by rw [← Nat.pow_succ']; congr 1; omega
+      have e2 : 2^(i-25) ≤ 2^(i-1) := Nat.pow_le_pow_right (by decide) (by omega)
+      omega
+    obtain ⟨r1, r2⟩ := est_p10idx_row i hi114
+    refine ⟨hi114, ?_⟩
+    have hcd : Dec.TF.cdiv (2^i) (2^20) = 2^(i-20) := by
+      unfold Dec.TF.cdiv
+      have e : 2^i = 2^(i-20) * 2^20 := by rw [← Nat.pow_add]; congr 1; omega
+      rw [e, Nat.add_sub_assoc (by norm_num), Nat.mul_comm, Nat.mul_add_div (by norm_num)]
+      norm_num
+    have hle : 2^(i-25) ≤ 2^(i-20) := Nat.pow_le_pow_right (by decide) (by omega)
+    have := estDigits_mechanism_over (i := i) (C := C) (by omega) (by omega) (by rw [hcd]; omega) h3 hC0
+    unfold estDigitsAt at this
+    rw [r2] at this
+    rw [ndigits_eq_slow, ← this, r1]
+
+
+/-- the code's binary-exponent estimate: the exponent field of `v as f32`, minus the bias, plus `K` -/
+theorem est_field (v : UInt64) (h0 : 0 < v.toNat) :
+    ∃ i, i ≤ 64 ∧ ((2^i ≤ v.toNat ∧ v.toNat < 2^(i+1)) ∨ (25 ≤ i ∧ 2^i - 2^(i-25) ≤ v.toNat ∧ v.toNat < 2^i)) ∧
+      ((((F32U.ofU64 (UInt64.ofInt (toI v))).bits >>> 23) &&& 255) - 127).toNat = i := by
+  obtain ⟨i, f1, f2, f3, f4⟩ := float_exp32 v.toNat h0 v.toNat_lt
+  refine ⟨i, f3, f4, ?_⟩
+  have e1 : (UInt64.ofInt (toI v)) = v := by rw [toI_u64, u64_ofInt_nat, UInt64.ofNat_toNat]
+  have eb : (F32U.ofU64 v).bits.toNat = floatBitsOfNat 23 127 v.toNat := by
+    show (UInt32.ofNat (floatBitsOfNat 23 127 v.toNat)).toNat = _
+    rw [UInt32.toNat_ofNat']; omega
+  have e2 : ((F32U.ofU64 v).bits >>> 23).toNat = i + 127 := by
+    rw [UInt32.toNat_shiftRight, eb, show (23 : UInt32).toNat % 32 = 23 from by decide, Nat.shiftRight_eq_div_pow, f1]
+  have e3 : (((F32U.ofU64 v).bits >>> 23) &&& 255).toNat = i + 127 := by
+    rw [UInt32.toNat_and, e2, show (255 : UInt32).toNat = 2^8 - 1 from by decide, Nat.and_two_pow_sub_one_eq_mod]
+    omega
+  rw [e1, UInt32.toNat_sub, e3, show (127 : UInt32).toNat = 127 from by decide]
+  omega
+
+theorem est_idx0 (u : UInt32) (i : Nat) (hu : u.toNat = i) (hi : i ≤ 64) :
+    UInt64.ofInt (toI (Int32.ofInt (toI u))) = UInt64.ofNat i := by
+  rw [toI_u32, hu, toI_i32, i32_nat i (by omega), u64_ofInt_nat]
+
+theorem est_idx64 (u : UInt32) (i : Nat) (hu : u.toNat = i) (hi : i ≤ 64) :
+    UInt64.ofInt (toI (Int32.ofInt (toI (u + 64)))) = UInt64.ofNat (i + 64) := by
+  have : (u + 64).toNat = i + 64 := by
+    rw [UInt32.toNat_add, hu, show (64 : UInt32).toNat = 64 from by decide]; omega
+  rw [toI_u32, this, toI_i32, i32_nat (i + 64) (by omega), u64_ofInt_nat]
+
+theorem quantMainA_spec (sw : UInt64) (s : Bool) (hs : sw.toNat = if s then 2^63 else 0) (Ex Ey : Nat)
+    (hEx : Ex ≤ 12287) (hEy : Ey ≤ 12287) (C : Nat) (hC0 : 0 < C) (hC : C < 10^34) (m : RoundingMode) (f : UInt32)
+    (sy : Bool) (cy : Nat) :
+    quantMainA sw (Int32.ofInt Ex) (Int32.ofInt Ey) (ofBits C) m f =
+      .ok (ofBits (encode (quantizeD (md m) (.fin s C ((Ex : Int) - 6176)) (.fin sy cy ((Ey : Int) - 6176))).1),
+        f ||| UInt32.ofNat (quantizeD (md m) (.fin s C ((Ex : Int) - 6176)) (.fin sy cy ((Ey : Int) - 6176))).2) := by
+  have h128 : (10:Nat)^34 < 2^113 := by decide +kernel
+  have hb : bitsOf (ofBits C) = C := bitsOf_ofBits C (by omega)
+  have hw0 := ofBits_w0 C
+  have hw1 := ofBits_w1 C (by omega)
+  -- the estimate `i` and the table entry
+  have key : ∀ (i : Nat) (d : Int32), ((2^i ≤ C ∧ C < 2^(i+1)) ∨ (25 ≤ i ∧ 2^i - 2^(i-25) ≤ C ∧ C < 2^i)) →
+      d.toInt = ((Dec.Gen.BID_ESTIMATE_DECIMAL_DIGITS.getD i 0 : Nat) : Int) →
+      quantAfterEst sw (Int32.ofInt Ex) (Int32.ofInt Ey) (ofBits C) m f d =
+        .ok (ofBits (encode (quantizeD (md m) (.fin s C ((Ex : Int) - 6176)) (.fin sy cy ((Ey : Int) - 6176))).1),
+          f ||| UInt32.ofNat (quantizeD (md m) (.fin s C ((Ex : Int) - 6176)) (.fin sy cy ((Ey : Int) - 6176))).2) := by
+    intro i d hi hdv
+    obtain ⟨hi114, hnd⟩ := digits_from_est C hC0 hC i hi
+    have hq : ndigits C ≤ 34 := by rw [ndigits_le_iff hC0]; exact hC
+    have he0 : Dec.Gen.BID_ESTIMATE_DECIMAL_DIGITS.getD i 0 < 39 := by omega
+    rw [quantAfterEst_eq _ _ _ _ _ _ d _ hdv he0, hb]
+    apply quantDispatch_spec sw s hs Ex Ey hEx hEy C hC0 hC _ _ m f sy cy
+    by_cases hc : 10 ^ Dec.Gen.BID_ESTIMATE_DECIMAL_DIGITS.getD i 0 ≤ C
+    · rw [if_pos hc] at hnd ⊢
+      rw [i32_add_small _ _ (by omega) (by decide), hdv]
+      show _ + (1 : Int) = _
+      omega
+    · rw [if_neg hc] at hnd ⊢
+      rw [hdv]; omega
+  unfold quantMainA
+  simp only [bind, pure, Except.pure]
+  by_cases hw : (ofBits C).w1 = 0
+  · rw [if_neg (by rw [hw]; decide)]
+    have hw1' : C / 2^64 = 0 := by rw [← hw1, hw]; rfl
+    have hC64 : C = (ofBits C).w0.toNat := by rw [hw0]; omega
+    obtain ⟨i, hi64, hcond, hfld⟩ := est_field (ofBits C).w0 (by omega)
+    rw [← hC64] at hcond
+    obtain ⟨d, hd, hdv⟩ := est_get i (by omega)
+    rw [est_idx0 _ i hfld hi64, hd, bind_ok]
+    exact key i d hcond hdv
+  · rw [if_pos (by simpa using hw)]
+    have hw1pos : 0 < (ofBits C).w1.toNat := by
+      rcases Nat.eq_zero_or_pos (ofBits C).w1.toNat with h | h
+      · exact absurd (UInt64.toNat_inj.1 (by rw [h]; rfl)) hw
+      · exact h
+    obtain ⟨i, hi64, hcond, hfld⟩ := est_field (ofBits C).w1 hw1pos
+    obtain ⟨d, hd, hdv⟩ := est_get (i + 64) (by
+      rcases hcond with ⟨a, b⟩ | ⟨a, b, c⟩
+      · have : 2^i < 2^49 := by rw [hw1] at a; omega
+        have := (Nat.pow_lt_pow_iff_right (by decide : 1 < 2)).1 this
+        omega
+      · have : 2^(i-1) < 2^49 := by
+          have e1 : 2^i = 2 * 2^(i-1) := by rw [← Nat.pow_succ']; congr 1; omega
+          have e2 : 2^(i-25) ≤ 2^(i-1) := Nat.pow_le_pow_right (by decide) (by omega)
+          rw [hw1] at b; omega
+        have := (Nat.pow_lt_pow_iff_right (by decide : 1 < 2)).1 this
+        omega)
+    rw [est_idx64 _ i hfld hi64, hd, bind_ok]
+    apply key (i + 64) d _ hdv
+    have hCd : C = (ofBits C).w1.toNat * 2^64 + (ofBits C).w0.toNat := by rw [hw0, hw1]; omega
+    have hl := (ofBits C).w0.toNat_lt
+    generalize (ofBits C).w1.toNat = W at *
+    generalize (ofBits C).w0.toNat = L at *
+    rcases hcond with ⟨a, b⟩ | ⟨a, b, c⟩
+    · left
+      rw [Nat.pow_add, show i + 64 + 1 = (i + 1) + 64 from by omega, Nat.pow_add (a := 2) (m := i + 1)]
+      generalize 2^i = P at *
+      generalize 2^(i+1) = P' at *
+      omega
+    · right
+      refine ⟨by omega, ?_, ?_⟩
+      · rw [Nat.pow_add, show i + 64 - 25 = (i - 25) + 64 from by omega, Nat.pow_add (a := 2) (m := i - 25)]
+        generalize 2^i = P at *
+        generalize 2^(i-25) = P' at *
+        omega
+      · rw [Nat.pow_add]
+        generalize 2^i = P at *
+        omega
+
+
+/-! ### B.4 the theorem -/
+
+/-- both operands finite, `x` non-zero -/
+theorem quantize_main (x y : U128) (m : RoundingMode) (f : UInt32) {sx sy : Bool} {cx cy : Nat} {ex ey : Int}
+    (hdx : decode (bitsOf x) = .fin sx cx ex) (hdy : decode (bitsOf y) = .fin sy cy ey) (hc : cx ≠ 0) :
+    bid128_quantize x y m f =
+      .ok (ofBits (encode (quantizeD (md m) (.fin sx cx ex) (.fin sy cy ey)).1),
+        f ||| UInt32.ofNat (quantizeD (md m) (.fin sx cx ex) (.fin sy cy ey)).2) := by
+  have wx := decode_WF (bitsOf x)
+  have wy := decode_WF (bitsOf y)
+  rw [hdx] at wx; rw [hdy] at wy
+  obtain ⟨hcx, hx1, hx2⟩ := wx
+  obtain ⟨_, hy1, hy2⟩ := wy
+  simp only [eMin, eMax] at hx1 hx2 hy1 hy2
+  simp only [P34] at hcx
+  have sgx := sign_word' x
+  rw [hdx] at sgx
+  obtain ⟨Ex, hEx⟩ : ∃ Ex : Nat, ex + 6176 = Ex := ⟨(ex + 6176).toNat, by omega⟩
+  obtain ⟨Ey, hEy⟩ : ∃ Ey : Nat, ey + 6176 = Ey := ⟨(ey + 6176).toNat, by omega⟩
+  have e1 : ex = (Ex : Int) - 6176 := by omega
+  have e2 : ey = (Ey : Int) - 6176 := by omega
+  rw [quantize_front_main x y m f hdx hdy hc, quantMain_shape, quantMain2_shape, hEx, hEy, e1, e2]
+  exact quantMainA_spec (x.w1 &&& 0x8000000000000000) sx sgx Ex Ey (by omega) (by omega) cx (by omega)
+    (by norm_num at hcx ⊢; exact hcx) m f sy cy
+
+/-- **`bid128_quantize`**, every pair of patterns, every rounding mode, every incoming status word: the routine returns
+(never panics)
+* a NaN operand (`x` first, else `y`): the canonical quiet NaN with that operand's sign and payload; invalid iff some
+  operand is signalling;
+* otherwise exactly what the model's `quantizeD` demands, canonically encoded: `Inf, Inf ↦` the infinity of `x`; one
+  infinity ↦ the default NaN with invalid; `x` zero ↦ zero with the sign of `x` and the exponent of `y`; `x` finite
+  non-zero: the exponent of `y` and either the coefficient scaled up exactly (invalid + NaN if that needs more than 34
+  digits) or the coefficient divided by the power of ten and rounded to an integer in the given mode (`roundInt`, with
+  the sign-aware directed modes), inexact iff digits were lost;
+* the status word: the incoming one with the flags of the model OR-ed in (nothing else is touched).
+Non-canonical encodings of either operand are read as `decode` reads them. -/
+theorem quantize_spec (x y : U128) (m : RoundingMode) (f : UInt32) :
+    bid128_quantize x y m f =
+      .ok (ofBits (encode (quantExpect (md m) (decode (bitsOf x)) (decode (bitsOf y))).1),
+        f ||| UInt32.ofNat (quantExpect (md m) (decode (bitsOf x)) (decode (bitsOf y))).2) := by
+  by_cases h : (decode (bitsOf x)).isFin = true ∧ (decode (bitsOf x)).isZero = false ∧ (decode (bitsOf y)).isFin = true
+  · obtain ⟨h1, h2, h3⟩ := h
+    cases hdx : decode (bitsOf x) with
+    | nan _ _ _ => rw [hdx] at h1; exact Bool.noConfusion h1
+    | inf _ => rw [hdx] at h1; exact Bool.noConfusion h1
+    | fin sx cx ex =>
+      cases hdy : decode (bitsOf y) with
+      | nan _ _ _ => rw [hdy] at h3; exact Bool.noConfusion h3
+      | inf _ => rw [hdy] at h3; exact Bool.noConfusion h3
+      | fin sy cy ey =>
+        rw [hdx] at h2
+        have hc : cx ≠ 0 := by
+          simp only [Datum.isZero, beq_eq_false_iff_ne] at h2; exact h2
+        rw [quantize_main x y m f hdx hdy hc]
+        rfl
+  · exact quantize_front_special x y m f h
+
+theorem quantExpect_WF (m : Mode) (dx dy : Datum) (hx : dx.WF) (hy : dy.WF) : (quantExpect m dx dy).1.WF := by
+  have hnan : defaultNaN.WF := by show (0 : Nat) < P33; decide
+  unfold quantExpect
+  cases dx with
+  | nan s g p => exact hx
+  | inf s =>
+    cases dy with
+    | nan s' g' p' => exact hy
+    | inf s' => trivial
+    | fin s' c' e' => exact hnan
+  | fin s c e =>
+    cases dy with
+    | nan s' g' p' => exact hy
+    | inf s' => exact hnan
+    | fin s' c' e' =>
+      obtain ⟨hc, _, _⟩ := hx
+      obtain ⟨_, he1, he2⟩ := hy
+      simp only [Datum.isNaN, Bool.false_eq_true, if_false, quantizeD]
+      by_cases h0 : c = 0
+      · rw [if_pos h0]; exact ⟨by decide, he1, he2⟩
+      · rw [if_neg h0]
+        by_cases h1 : e ≥ e'
+        · rw [if_pos h1]
+          by_cases h2 : c * 10 ^ (e - e').toNat < P34
+          · rw [if_pos h2]; exact ⟨h2, he1, he2⟩
+          · rw [if_neg h2]; exact hnan
+        · rw [if_neg h1]
+          have := Dec.C09Q.raise_bound m s c e e' hc (by omega)
+          exact ⟨by have := Dec.C09Q.P33_lt_P34; omega, he1, he2⟩
+
+/-- **`quantize` at the level of data**: the result is always a canonical encoding, it decodes to the datum the NaN rule /
+the model's `quantizeD` prescribe, and the outgoing status word is the incoming one with the model's flags OR-ed in -/
+theorem quantize_decode (x y : U128) (m : RoundingMode) (f : UInt32) :
+    ∃ r f', bid128_quantize x y m f = .ok (r, f') ∧
+      decode (bitsOf r) = (quantExpect (md m) (decode (bitsOf x)) (decode (bitsOf y))).1 ∧ isCanonical (bitsOf r) = true ∧
+      f'.toNat = f.toNat ||| (quantExpect (md m) (decode (bitsOf x)) (decode (bitsOf y))).2 % 2^32 := by
+  have hwf := quantExpect_WF (md m) _ _ (decode_WF (bitsOf x)) (decode_WF (bitsOf y))
+  refine ⟨_, _, quantize_spec x y m f, ?_, ?_, ?_⟩
+  · rw [bitsOf_ofBits _ (encode_lt hwf), decode_encode hwf]
+  · rw [bitsOf_ofBits _ (encode_lt hwf)]; exact isCanonical_encode hwf
+  · rw [UInt32.toNat_or, UInt32.toNat_ofNat']
+
+-- 1.2345 quantized to 10^-2 (round half even: 1.23, inexact); 1.235 → 1.24 (tie to even) and → 1.23 toward zero;
+-- 5·10^0 quantized to 10^-3 (scale up, exact); to 10^-40 … more than 34 digits: invalid; 1·10^-10 to 10^0 upward: 1, inexact;
+-- Inf to a finite quantum: invalid; −0 (non-canonical) keeps its sign and takes y's exponent; sNaN payload kept, invalid
+example : bid128_quantize ⟨12345, 0x3038000000000000⟩ ⟨1, 0x303c000000000000⟩ .NearestEven 0 = .ok (⟨123, 0x303c000000000000⟩, 0x20) ∧
+    bid128_quantize ⟨1235, 0x303a000000000000⟩ ⟨1, 0x303c000000000000⟩ .NearestEven 0 = .ok (⟨124, 0x303c000000000000⟩, 0x20) ∧
+    bid128_quantize ⟨1235, 0x303a000000000000⟩ ⟨1, 0x303c000000000000⟩ .TowardZero 0 = .ok (⟨123, 0x303c000000000000⟩, 0x20) ∧
+    bid128_quantize ⟨5, 0x3040000000000000⟩ ⟨7, 0x303a000000000000⟩ .NearestEven 0x08 = .ok (⟨5000, 0x303a000000000000⟩, 0x08) ∧
+    bid128_quantize ⟨5, 0x3040000000000000⟩ ⟨7, 0x2ff0000000000000⟩ .NearestEven 0 = .ok (⟨0, 0x7c00000000000000⟩, 0x01) ∧
+    bid128_quantize ⟨1, 0x302c000000000000⟩ ⟨1, 0x3040000000000000⟩ .Upward 0 = .ok (⟨1, 0x3040000000000000⟩, 0x20) ∧
+    bid128_quantize ⟨0, 0x7800000000000000⟩ ⟨1, 0x3040000000000000⟩ .NearestEven 0 = .ok (⟨0, 0x7c00000000000000⟩, 0x01) ∧
+    bid128_quantize ⟨0x378d8e6400000000, 0xb041ed09bead87c0⟩ ⟨1, 0x3000000000000000⟩ .NearestEven 0 = .ok (⟨0, 0xb000000000000000⟩, 0) ∧
+    bid128_quantize ⟨9, 0xfe00000000000000⟩ ⟨1, 0x3040000000000000⟩ .NearestEven 0 = .ok (⟨9, 0xfc00000000000000⟩, 0x01) := by
+  decide +kernel
 
 end Dec.C09GenQuantize
